@@ -163,6 +163,24 @@ example :
     WF e = true ∧ cap e = 5 ∧ Requires e 0 = true ∧ Requires e 2 = true ∧ Requires e 1 = false := by
   simp [WF, cap, Requires, adapterCap, invEnablerCap, capTable, addInverse, sumCap, chainCap, allOps, TIMES, ADJOINT_TIMES]
 
+/-- **sums advertise only forward and adjoint application**, whatever their summands advertise; consequently the inverse adapter
+    of a sum advertises at most the two inverse modes -/
+theorem sum_no_inverse_modes (ops : List (Op K D)) (neg : List Bool) (h : WF (Op.sum ops neg) = true) (s : Nat) (hs : s < 4)
+    (hinv : (s &&& 2) ≠ 0) :
+    (((cap (Op.sum ops neg)) &&& (1 <<< s)) != 0) = false ∧
+    (((cap (Op.adapter (Op.sum ops neg) INVERSE_BIT)) &&& (1 <<< (s ^^^ 2))) != 0) = false := by
+  have hw : WF (Op.adapter (Op.sum ops neg) INVERSE_BIT) = true := by
+    simp only [WF, Bool.and_eq_true, decide_eq_true_eq]
+    exact ⟨by decide, by simpa [WF] using h⟩
+  have hx : s ^^^ 2 < 4 := xor_lt s hs 2 (by decide)
+  have hxx : (s ^^^ 2) ^^^ INVERSE_BIT = s := by revert s; decide
+  refine ⟨?_, ?_⟩
+  · rw [cap_spec _ h s hs]
+    simp [Requires, hinv]
+  · rw [cap_spec _ hw _ hx]
+    simp only [Requires, hxx]
+    simp [hinv]
+
 end capability
 
 /-! ### Part 2 — dense action of the operator classes (Mathlib matrices over any star field, any index type)
@@ -354,13 +372,13 @@ theorem chainMergeDiag_sound (l : List (Op K (X → K))) (s : Nat) (hs : s < 4) 
     simp only [Bool.and_eq_true] at hab
     obtain ⟨dm1, d1, t1, dt1, rfl⟩ := isDiag_cases a hab.1
     obtain ⟨dm2, d2, t2, dt2, rfl⟩ := isDiag_cases b hab.2
-    have h1 : t1 < 4 := by simpa [okC, diagOK, isBlock] using hd (Op.diag dm1 d1 t1 dt1) (by simp)
-    have h2 : t2 < 4 := by simpa [okC, diagOK, isBlock] using hd (Op.diag dm2 d2 t2 dt2) (by simp)
+    have h1 : t1 < 4 := by simpa [okC, diagOK, isBlock, isChainOp] using hd (Op.diag dm1 d1 t1 dt1) (by simp)
+    have h2 : t2 < 4 := by simpa [okC, diagOK, isBlock, isChainOp] using hd (Op.diag dm2 d2 t2 dt2) (by simp)
     have hd' : ∀ o ∈ diagCombineProd S (Op.diag dm1 d1 t1 dt1) (Op.diag dm2 d2 t2 dt2) :: rest, okC o = true := by
       intro o ho
       simp only [List.mem_cons] at ho
       rcases ho with rfl | ho
-      · simp [diagCombineProd, okC, diagOK, isBlock]
+      · simp [diagCombineProd, okC, diagOK, isBlock, isChainOp]
       · exact hd o (by simp [ho])
     obtain ⟨ih1, ih2⟩ := ih hd'
     refine ⟨?_, ih2⟩
@@ -427,7 +445,7 @@ theorem chainAbsorb_sound (f : K) (l : List (Op K (X → K))) (s : Nat) (hs : s 
   | cons o os ih =>
     by_cases hdg : isDiag o = true
     · obtain ⟨dm, d, t, dt, rfl⟩ := isDiag_cases o hdg
-      have ht : t < 4 := by simpa [okC, diagOK, isBlock] using hd (Op.diag dm d t dt) (by simp)
+      have ht : t < 4 := by simpa [okC, diagOK, isBlock, isChainOp] using hd (Op.diag dm d t dt) (by simp)
       simp only [chainAbsorb, hdg, if_true, List.map_cons]
       refine ⟨?_, ?_⟩
       · rw [diagScale_sound isReal re blocks leaf dm d t dt f s ht hs, mprod_cons_smul]
@@ -436,7 +454,7 @@ theorem chainAbsorb_sound (f : K) (l : List (Op K (X → K))) (s : Nat) (hs : s 
       · intro o ho
         simp only [List.mem_cons] at ho
         rcases ho with rfl | ho
-        · simp [diagScale, okC, diagOK, isBlock]
+        · simp [diagScale, okC, diagOK, isBlock, isChainOp]
         · exact hd o (by simp [ho])
     · have hdg' : isDiag o = false := by simpa using hdg
       have hd' : ∀ o ∈ os, okC o = true := fun x hx => hd x (by simp [hx])
@@ -495,14 +513,15 @@ theorem chainAppend_sound (l : List (Op K (X → K))) (f : K) (dom : Nat) (s : N
 theorem chainMergeDiag_sound' (mk : List (Op K (X → K)) → Op K (X → K)) (l : List (Op K (X → K))) (s : Nat) (hs : s < 4)
     (hd : ∀ o ∈ l, okC o = true) :
     mprod (revOf s) ((chainMergeBlock S mk (chainMergeDiag S l)).map (den S · (1 <<< s))) =
-      mprod (revOf s) (l.map (den S · (1 <<< s))) ∧ (l ≠ [] → chainMergeBlock S mk (chainMergeDiag S l) ≠ []) := by
+      mprod (revOf s) (l.map (den S · (1 <<< s))) ∧ (l ≠ [] → chainMergeBlock S mk (chainMergeDiag S l) ≠ []) ∧
+      (∀ o ∈ chainMergeBlock S mk (chainMergeDiag S l), okC o = true) := by
   obtain ⟨h1, h2⟩ := chainMergeDiag_sound isReal re blocks leaf l s hs hd
   have hnb := chainMergeBlock_noblock isReal re blocks leaf mk _ (fun o ho => by
     have := h2 o ho
     simp only [okC, Bool.and_eq_true, Bool.not_eq_true'] at this
-    exact this.2)
+    exact this.1.2)
   rw [hnb]
-  exact ⟨h1, chainMergeDiag_ne isReal re blocks leaf l⟩
+  exact ⟨h1, chainMergeDiag_ne isReal re blocks leaf l, h2⟩
 
 /-- collapsing a chain that contains a NullOperator keeps the product (both are zero) -/
 theorem chainNullCollapse_sound (ops1 : List (Op K (X → K))) (s : Nat) (hs : s < 4) (hok : ∀ o ∈ ops1, okC o = true) :
@@ -523,7 +542,7 @@ theorem chainNullCollapse_sound (ops1 : List (Op K (X → K))) (s : Nat) (hs : s
     · intro o ho
       simp only [List.mem_singleton] at ho
       subst ho
-      simp [okC, diagOK, isBlock]
+      simp [okC, diagOK, isBlock, isChainOp]
   · have hnull' : ops1.any isNull = false := by simpa using hnull
     simp only [hnull', Bool.false_eq_true, if_false]
     constructor
@@ -534,7 +553,7 @@ theorem chainNullCollapse_sound (ops1 : List (Op K (X → K))) (s : Nat) (hs : s
 theorem chainPost_sound (hre : ∀ c, isReal c = true → re c = c) (mk : List (Op K (X → K)) → Op K (X → K))
     (ops1 : List (Op K (X → K))) (s : Nat) (hs : s < 4) (hok : ∀ o ∈ ops1, okC o = true) :
     mprod (revOf s) ((chainPost S mk ops1).map (den S · (1 <<< s))) = mprod (revOf s) (ops1.map (den S · (1 <<< s))) ∧
-    chainPost S mk ops1 ≠ [] := by
+    chainPost S mk ops1 ≠ [] ∧ (∀ o ∈ chainPost S mk ops1, okC o = true) := by
   simp only [chainPost]
   have hcol := chainCollect_sound isReal re blocks leaf hre ops1 (msem isReal re blocks leaf).kone s hs
   have hone : modeScalar (msem isReal re blocks leaf).kone s = 1 := modeScalar_one s hs
@@ -553,13 +572,13 @@ theorem chainPost_sound (hre : ∀ c, isReal c = true → re c = c) (mk : List (
     have hm := chainMergeDiag_sound' isReal re blocks leaf mk
       (if (!decide ((1 : K) = 1) || opsnew.isEmpty) = true then opsnew ++ [Op.scaling (lastDom ops1) 1 0] else opsnew) s hs ?_
     · simp only [decide_true, Bool.not_true] at hm
-      exact ⟨hm.1.trans happ, hm.2 (appendScaling_ne _ _ _)⟩
+      exact ⟨hm.1.trans happ, hm.2.1 (appendScaling_ne _ _ _), hm.2.2⟩
     intro o ho
     split at ho
     · simp only [List.mem_append, List.mem_singleton] at ho
       rcases ho with ho | rfl
       · exact hfilt o ho
-      · simp [okC, diagOK, isBlock]
+      · simp [okC, diagOK, isBlock, isChainOp]
     · exact hfilt o ho
   · have hdf : decide (fct = 1) = false := by simpa using hf
     simp only [hk, hdf, Bool.not_false, if_true]
@@ -571,13 +590,13 @@ theorem chainPost_sound (hre : ∀ c, isReal c = true → re c = c) (mk : List (
       (if (!decide ((chainAbsorb S fct opsnew).2 = 1) || (chainAbsorb S fct opsnew).1.isEmpty) = true then
         (chainAbsorb S fct opsnew).1 ++ [Op.scaling (lastDom ops1) (chainAbsorb S fct opsnew).2 0]
       else (chainAbsorb S fct opsnew).1) s hs ?_
-    · exact ⟨hm.1.trans (happ.trans ha1), hm.2 (appendScaling_ne _ _ _)⟩
+    · exact ⟨hm.1.trans (happ.trans ha1), hm.2.1 (appendScaling_ne _ _ _), hm.2.2⟩
     intro o ho
     split at ho
     · simp only [List.mem_append, List.mem_singleton] at ho
       rcases ho with ho | rfl
       · exact ha2 o ho
-      · simp [okC, diagOK, isBlock]
+      · simp [okC, diagOK, isBlock, isChainOp]
     · exact ha2 o ho
 
 /-- **ChainOperator.simplify preserves the action** (lists without block-diagonal operators): the mode-ordered product of the
@@ -587,11 +606,11 @@ theorem chainSimplifyCore_sound (hre : ∀ c, isReal c = true → re c = c) (mk 
     (hne : ∀ o ∈ ops, ∀ l, o = Op.chain l → l ≠ [])
     (hok : ∀ o ∈ chainFlatten ops, okC o = true) :
     mprod (revOf s) ((chainSimplifyCore S mk ops).map (den S · (1 <<< s))) = mprod (revOf s) (ops.map (den S · (1 <<< s))) ∧
-    chainSimplifyCore S mk ops ≠ [] := by
+    chainSimplifyCore S mk ops ≠ [] ∧ (∀ o ∈ chainSimplifyCore S mk ops, okC o = true) := by
   unfold chainSimplifyCore
   obtain ⟨hn1, hn2⟩ := chainNullCollapse_sound isReal re blocks leaf (chainFlatten ops) s hs hok
-  obtain ⟨hp1, hp2⟩ := chainPost_sound isReal re blocks leaf hre mk _ s hs hn2
-  exact ⟨by rw [hp1, hn1, chainFlatten_sound isReal re blocks leaf ops s hs hne], hp2⟩
+  obtain ⟨hp1, hp2, hp3⟩ := chainPost_sound isReal re blocks leaf hre mk _ s hs hn2
+  exact ⟨by rw [hp1, hn1, chainFlatten_sound isReal re blocks leaf ops s hs hne], hp2, hp3⟩
 
 theorem isIdentity_den (o : Op K (X → K)) (h : isIdentity S o = true) (m : Nat) : den S o m = 1 := by
   cases o <;> simp [isIdentity] at h
@@ -623,8 +642,10 @@ theorem mkChainU_sound (hre : ∀ c, isReal c = true → re c = c) (fuel : Nat) 
           refine ⟨?_, by simp⟩
           simp only [List.map_cons, List.map_nil, mprod_cons, mprod_nil, isIdentity_den isReal re blocks leaf b hb]
           cases revOf s <;> simp
-        · exact chainSimplifyCore_sound isReal re blocks leaf hre _ _ s hs hne hok
-    · exact chainSimplifyCore_sound isReal re blocks leaf hre _ _ s hs hne hok
+        · have := chainSimplifyCore_sound isReal re blocks leaf hre (mkChainU S fuel) _ s hs hne hok
+          exact ⟨this.1, this.2.1⟩
+    · have := chainSimplifyCore_sound isReal re blocks leaf hre (mkChainU S fuel) _ s hs hne hok
+      exact ⟨this.1, this.2.1⟩
   obtain ⟨hL1, hL2⟩ := hL
   rw [mkChainU]
   rw [← hL1]
@@ -660,20 +681,20 @@ theorem modeScalar_add2 (a b : K) (s : Nat) (hs : s < 2) : modeScalar (a + b) s 
 
 /-- the summed scalings absorbed into the first diagonal operator with the same sampling dtype, **with its sign** -/
 theorem sumAbsorb_sound (c : K) (dt : Nat) (l : List (Op K (X → K) × Bool)) (s : Nat) (hs : s < 2)
-    (hd : ∀ p ∈ l, okC p.1 = true) :
+    (hd : ∀ p ∈ l, okS p.1 = true) :
     ssum isReal re blocks leaf (sumAbsorb S c dt l).1 s + modeScalar (sumAbsorb S c dt l).2 s • (1 : Matrix X X K) =
       ssum isReal re blocks leaf l s + modeScalar c s • (1 : Matrix X X K) ∧
-    (∀ p ∈ (sumAbsorb S c dt l).1, okC p.1 = true) := by
+    (∀ p ∈ (sumAbsorb S c dt l).1, okS p.1 = true) := by
   induction l with
   | nil => simp [sumAbsorb]
   | cons p ps ih =>
     obtain ⟨o, n⟩ := p
-    have hd' : ∀ p ∈ ps, okC p.1 = true := fun x hx => hd x (by simp [hx])
+    have hd' : ∀ p ∈ ps, okS p.1 = true := fun x hx => hd x (by simp [hx])
     by_cases hc : (isDiag o && dtOf o == dt) = true
     · simp only [sumAbsorb, hc, if_true]
       simp only [Bool.and_eq_true] at hc
       obtain ⟨dm, d, t, dt', rfl⟩ := isDiag_cases o hc.1
-      have ht : t < 4 := by simpa [okC, diagOK, isBlock] using hd (Op.diag dm d t dt', n) (by simp)
+      have ht : t < 4 := by simpa [okS, diagOK, isBlock] using hd (Op.diag dm d t dt', n) (by simp)
       have hz : (msem isReal re blocks leaf).kzero = (0 : K) := rfl
       refine ⟨?_, ?_⟩
       · rw [ssum_cons, ssum_cons, hz, modeScalar_zero2 s hs, zero_smul, add_zero,
@@ -687,7 +708,7 @@ theorem sumAbsorb_sound (c : K) (dt : Nat) (l : List (Op K (X → K) × Bool)) (
       · intro p hp
         simp only [List.mem_cons] at hp
         rcases hp with rfl | hp
-        · simp [diagAdd, okC, diagOK, isBlock]
+        · simp [diagAdd, okS, diagOK, isBlock]
         · exact hd' p hp
     · have hc' : (isDiag o && dtOf o == dt) = false := by simpa using hc
       obtain ⟨ih1, ih2⟩ := ih hd'
@@ -702,28 +723,28 @@ theorem sumAbsorb_sound (c : K) (dt : Nat) (l : List (Op K (X → K) × Bool)) (
 
 
 theorem diagCombineSum_isDiag (a b : Op K (X → K)) (na nb : Bool) (ha : isDiag a = true) (hb : isDiag b = true) :
-    isDiag (diagCombineSum S a b na nb) = true ∧ okC (diagCombineSum S a b na nb) = true := by
+    isDiag (diagCombineSum S a b na nb) = true ∧ okS (diagCombineSum S a b na nb) = true := by
   obtain ⟨dm, d, t, dt, rfl⟩ := isDiag_cases a ha
   obtain ⟨dm2, d2, t2, dt2, rfl⟩ := isDiag_cases b hb
-  simp [diagCombineSum, isDiag, okC, diagOK, isBlock]
+  simp [diagCombineSum, isDiag, okS, diagOK, isBlock]
 
 /-- inner loop of the diagonal merge of SumOperator.simplify: later diagonals with the same sampling dtype are merged into the
     accumulator with their signs; the accumulator's own sign becomes "+" after the first merge -/
 theorem sumAbsorbDiags_sound (dt0 : Nat) (acc : Op K (X → K)) (accneg : Bool) (l : List (Op K (X → K) × Bool)) (s : Nat)
-    (hs : s < 2) (hacc : isDiag acc = true) (hokacc : okC acc = true) (hd : ∀ p ∈ l, okC p.1 = true) :
+    (hs : s < 2) (hacc : isDiag acc = true) (hokacc : okS acc = true) (hd : ∀ p ∈ l, okS p.1 = true) :
     (if (sumAbsorbDiags S dt0 acc accneg l).2.1 then - den S (sumAbsorbDiags S dt0 acc accneg l).1 (1 <<< s)
       else den S (sumAbsorbDiags S dt0 acc accneg l).1 (1 <<< s)) +
         ssum isReal re blocks leaf (sumAbsorbDiags S dt0 acc accneg l).2.2 s =
       (if accneg then - den S acc (1 <<< s) else den S acc (1 <<< s)) + ssum isReal re blocks leaf l s ∧
-    okC (sumAbsorbDiags S dt0 acc accneg l).1 = true ∧
-    (∀ p ∈ (sumAbsorbDiags S dt0 acc accneg l).2.2, okC p.1 = true) := by
+    okS (sumAbsorbDiags S dt0 acc accneg l).1 = true ∧
+    (∀ p ∈ (sumAbsorbDiags S dt0 acc accneg l).2.2, okS p.1 = true) := by
   induction l generalizing acc accneg with
   | nil =>
     refine ⟨?_, hokacc, by simp [sumAbsorbDiags]⟩
     cases accneg <;> simp [sumAbsorbDiags, ssum_nil]
   | cons p ps ih =>
     obtain ⟨o, n⟩ := p
-    have hd' : ∀ p ∈ ps, okC p.1 = true := fun x hx => hd x (by simp [hx])
+    have hd' : ∀ p ∈ ps, okS p.1 = true := fun x hx => hd x (by simp [hx])
     by_cases hc : (isDiag o && dtOf o == dt0) = true
     · simp only [sumAbsorbDiags, hc, if_true]
       simp only [Bool.and_eq_true] at hc
@@ -733,8 +754,8 @@ theorem sumAbsorbDiags_sound (dt0 : Nat) (acc : Op K (X → K)) (accneg : Bool) 
       rw [ih1, ssum_cons]
       obtain ⟨dm, d, t, dt, rfl⟩ := isDiag_cases acc hacc
       obtain ⟨dm2, d2, t2, dt2, rfl⟩ := isDiag_cases o hc.1
-      have ht : t < 4 := by simpa [okC, diagOK, isBlock] using hokacc
-      have ht2 : t2 < 4 := by simpa [okC, diagOK, isBlock] using hd (Op.diag dm2 d2 t2 dt2, n) (by simp)
+      have ht : t < 4 := by simpa [okS, diagOK, isBlock] using hokacc
+      have ht2 : t2 < 4 := by simpa [okS, diagOK, isBlock] using hd (Op.diag dm2 d2 t2 dt2, n) (by simp)
       simp only [Bool.false_eq_true, if_false]
       rw [diagCombineSum_sound isReal re blocks leaf dm dm2 d d2 t t2 dt dt2 accneg n s ht ht2 hs, add_assoc]
     · have hc' : (isDiag o && dtOf o == dt0) = false := by simpa using hc
@@ -750,13 +771,13 @@ theorem sumAbsorbDiags_sound (dt0 : Nat) (acc : Op K (X → K)) (accneg : Bool) 
         · exact ih3 p hp
 
 /-- **diagonal merge of SumOperator.simplify preserves the signed sum** (TIMES and ADJOINT_TIMES) -/
-theorem sumMergeDiags_sound (l : List (Op K (X → K) × Bool)) (s : Nat) (hs : s < 2) (hd : ∀ p ∈ l, okC p.1 = true) :
+theorem sumMergeDiags_sound (l : List (Op K (X → K) × Bool)) (s : Nat) (hs : s < 2) (hd : ∀ p ∈ l, okS p.1 = true) :
     ssum isReal re blocks leaf (sumMergeDiags S l) s = ssum isReal re blocks leaf l s ∧
-    (∀ p ∈ sumMergeDiags S l, okC p.1 = true) := by
+    (∀ p ∈ sumMergeDiags S l, okS p.1 = true) := by
   fun_induction sumMergeDiags S l with
   | case1 => exact ⟨rfl, hd⟩
   | case2 o n rest ho r ih =>
-    have hd' : ∀ p ∈ rest, okC p.1 = true := fun x hx => hd x (by simp [hx])
+    have hd' : ∀ p ∈ rest, okS p.1 = true := fun x hx => hd x (by simp [hx])
     obtain ⟨h1, h2, h3⟩ := sumAbsorbDiags_sound isReal re blocks leaf (dtOf o) o n rest s hs ho (hd (o, n) (by simp)) hd'
     obtain ⟨ih1, ih2⟩ := ih h3
     refine ⟨?_, ?_⟩
@@ -767,7 +788,7 @@ theorem sumMergeDiags_sound (l : List (Op K (X → K) × Bool)) (s : Nat) (hs : 
       · exact h2
       · exact ih2 p hp
   | case3 o n rest ho ih =>
-    have hd' : ∀ p ∈ rest, okC p.1 = true := fun x hx => hd x (by simp [hx])
+    have hd' : ∀ p ∈ rest, okS p.1 = true := fun x hx => hd x (by simp [hx])
     obtain ⟨ih1, ih2⟩ := ih hd'
     refine ⟨?_, ?_⟩
     · rw [ssum_cons, ssum_cons, ih1]
@@ -820,7 +841,7 @@ theorem sumScalings_split (l : List (Op K (X → K) × Bool)) (init : K) (s : Na
 
 /-- **one (domain, target) group of SumOperator.simplify preserves the signed sum** (no block-diagonal operators) -/
 theorem sumProcessGroup_sound (fuel : Nat) (mk : List (Op K (X → K)) → List Bool → Op K (X → K))
-    (opset : List (Op K (X → K) × Bool)) (s : Nat) (hs : s < 2) (hd : ∀ p ∈ opset, okC p.1 = true) :
+    (opset : List (Op K (X → K) × Bool)) (s : Nat) (hs : s < 2) (hd : ∀ p ∈ opset, okS p.1 = true) :
     ssum isReal re blocks leaf (sumProcessGroup S fuel mk opset) s = ssum isReal re blocks leaf opset s := by
   have hs4 : s < 4 := by omega
   simp only [sumProcessGroup]
@@ -830,28 +851,28 @@ theorem sumProcessGroup_sound (fuel : Nat) (mk : List (Op K (X → K)) → List 
   rw [hsplit]
   generalize (opset.filter fun x => isScaling x.1).foldl (sumScalStep S) (msem isReal re blocks leaf).kzero = sc
   generalize commonDtype ((opset.filter fun x => isScaling x.1).map (fun x => dtOf x.1)) = dtype
-  have hfilt : ∀ p ∈ opset.filter (fun x => !isScaling x.1), okC p.1 = true := fun p hp => hd p (List.mem_of_mem_filter hp)
+  have hfilt : ∀ p ∈ opset.filter (fun x => !isScaling x.1), okS p.1 = true := fun p hp => hd p (List.mem_of_mem_filter hp)
   generalize opset.filter (fun x => !isScaling x.1) = others at hfilt ⊢
   have hk : ∀ f : K, (msem isReal re blocks leaf).keq f (msem isReal re blocks leaf).kzero = decide (f = 0) := fun _ => rfl
   -- the list before the merges and its signed sum
-  have key : ∀ (l : List (Op K (X → K) × Bool)) (f : K), (∀ p ∈ l, okC p.1 = true) →
+  have key : ∀ (l : List (Op K (X → K) × Bool)) (f : K), (∀ p ∈ l, okS p.1 = true) →
       ssum isReal re blocks leaf (sumMergeBlocks S fuel mk (sumMergeDiags S
         (if (!decide (f = 0) || l.isEmpty) = true then l ++ [(Op.scaling (firstDom opset) f dtype, false)] else l))) s =
       ssum isReal re blocks leaf l s + modeScalar f s • (1 : Matrix X X K) := by
     intro l f hl
     have hok3 : ∀ p ∈ (if (!decide (f = 0) || l.isEmpty) = true then l ++ [(Op.scaling (firstDom opset) f dtype, false)] else l),
-        okC p.1 = true := by
+        okS p.1 = true := by
       intro p hp
       split at hp
       · simp only [List.mem_append, List.mem_singleton] at hp
         rcases hp with hp | rfl
         · exact hl p hp
-        · simp [okC, diagOK, isBlock]
+        · simp [okS, diagOK, isBlock]
       · exact hl p hp
     obtain ⟨hm1, hm2⟩ := sumMergeDiags_sound isReal re blocks leaf _ s hs hok3
     rw [sumMergeBlocks_noblock isReal re blocks leaf fuel mk _ (fun p hp => by
       have := hm2 p hp
-      simp only [okC, Bool.and_eq_true, Bool.not_eq_true'] at this
+      simp only [okS, Bool.and_eq_true, Bool.not_eq_true'] at this
       exact this.2), hm1]
     by_cases hc : (!decide (f = 0) || l.isEmpty) = true
     · simp only [hc, if_true]
@@ -1018,7 +1039,7 @@ theorem sumFlatten_sound (ops : List (Op K (X → K))) (neg : List Bool) (s : Na
 /-- **SumOperator.simplify preserves the signed sum** in the two modes a sum advertises (no block-diagonal operators) -/
 theorem sumSimplify_sound (fuel : Nat) (mk : List (Op K (X → K)) → List Bool → Op K (X → K))
     (ops : List (Op K (X → K))) (neg : List Bool) (s : Nat) (hs : s < 2)
-    (hd : ∀ p ∈ sumFlatten ops neg, okC p.1 = true) :
+    (hd : ∀ p ∈ sumFlatten ops neg, okS p.1 = true) :
     ssum isReal re blocks leaf (sumSimplify S fuel mk ops neg) s = ssum isReal re blocks leaf (ops.zip neg) s := by
   simp only [sumSimplify]
   rw [ssum_flatMap, ← sumFlatten_sound isReal re blocks leaf ops neg s]
@@ -1032,7 +1053,7 @@ theorem sumSimplify_sound (fuel : Nat) (mk : List (Op K (X → K)) → List Bool
 /-- **SumOperator.make preserves the action** (TIMES, ADJOINT_TIMES): the result acts as the signed sum of the operands; when a
     single negated operator remains, `-op` is built through `ChainOperator.make` (hypotheses of `mkChainU_sound` on that operator) -/
 theorem mkSumU_sound (hre : ∀ c, isReal c = true → re c = c) (fuel : Nat) (ops : List (Op K (X → K))) (neg : List Bool)
-    (s : Nat) (hs : s < 2) (hd : ∀ p ∈ sumFlatten ops neg, okC p.1 = true)
+    (s : Nat) (hs : s < 2) (hd : ∀ p ∈ sumFlatten ops neg, okS p.1 = true)
     (hsingle : ∀ o, sumSimplify S fuel (mkSumU S fuel) ops neg = [(o, true)] →
       (∀ l, o = Op.chain l → l ≠ []) ∧ (∀ x ∈ chainFlatten [o], okC x = true)) :
     den S (mkSumU S (fuel + 1) ops neg) (1 <<< s) = ssum isReal re blocks leaf (ops.zip neg) s := by
@@ -1054,7 +1075,7 @@ theorem mkSumU_sound (hre : ∀ c, isReal c = true → re c = c) (fuel : Nat) (o
         (by intro x hx
             simp only [chainFlatten, List.flatMap_cons, List.flatMap_nil, List.append_nil, List.mem_append] at hx h2
             rcases hx with hx | hx
-            · simp only [List.mem_singleton] at hx; subst hx; simp [okC, diagOK, isBlock]
+            · simp only [List.mem_singleton] at hx; subst hx; simp [okC, diagOK, isBlock, isChainOp]
             · exact h2 x hx)]
       simp only [List.map_cons, List.map_nil, mprod_cons, mprod_nil]
       rw [den_scaling isReal re blocks leaf _ _ 0 s hs4]
@@ -1069,18 +1090,1638 @@ theorem mkSumU_sound (hre : ∀ c, isReal c = true → re c = c) (fuel : Nat) (o
     rw [den_sum_ssum, hz]
 
 
+/-! ### Part 6 — `_flip_modes` of every operator (chains included) and InversionEnabler, all four modes -/
+
+/-- shape invariants of operator objects as the constructors produce them: transformations are 0..3, adapters never wrap chains,
+    chains are non-empty and flat; block-diagonal operators are excluded as chain members / adapter operands (their merging needs a
+    block structure on `X`) -/
+def goodF : Op K (X → K) → Bool
+  | .diag _ _ t _ => decide (t < 4)
+  | .adapter o t => decide (t < 4) && goodF o && !isChainOp o && !isBlock o
+  | .chain ops => !ops.isEmpty && (ops.map (fun x => goodF x && !isBlock x && !isChainOp x)).all id
+  | _ => true
+
+theorem mprod_reverse (r : Bool) (l : List (Matrix X X K)) : mprod r l.reverse = mprod (!r) l := by
+  cases r <;> simp [mprod]
+
+theorem revOf_xor : ∀ s, s < 4 → (revOf (s ^^^ 1) = !revOf s) ∧ (revOf (s ^^^ 2) = !revOf s) ∧ (revOf (s ^^^ 3) = revOf s) := by
+  decide
+
+theorem chainFlipReversed_eval : ∀ t, t < 4 → t ≠ 0 →
+    (chainFlipReversed.getD (t - 1) false = true ↔ (t = 1 ∨ t = 2)) ∧
+    (chainFlipReversed.getD (t - 1) false = false ↔ t = 3) := by decide
+
+theorem chainFlatten_nochain (l : List (Op K (X → K))) (h : ∀ x ∈ l, isChainOp x = false) : chainFlatten l = l := by
+  unfold chainFlatten
+  induction l with
+  | nil => rfl
+  | cons x xs ih =>
+    simp only [List.flatMap_cons]
+    rw [ih (fun y hy => h y (by simp [hy]))]
+    have := h x (by simp)
+    cases x <;> simp_all [isChainOp]
+
+/-- flipping a non-chain, non-block member of a chain yields a non-chain operator that satisfies `okC` -/
+theorem flip_member (x : Op K (X → K)) (t : Nat) (ht : t < 4) (hx : goodF x = true) (hb : isBlock x = false)
+    (hc : isChainOp x = false) : isChainOp (OpAlgebra.flip S x t) = false ∧ okC (OpAlgebra.flip S x t) = true := by
+  cases x with
+  | chain l => simp [isChainOp] at hc
+  | blockdiag d es => simp [isBlock] at hb
+  | adapter o t0 =>
+    simp only [goodF, Bool.and_eq_true, decide_eq_true_eq, Bool.not_eq_true'] at hx
+    obtain ⟨⟨⟨ht0, _⟩, hoc⟩, hob⟩ := hx
+    unfold OpAlgebra.flip
+    by_cases h0 : (adapterFlip t0 t == 0) = true
+    · simp only [h0, if_true]
+      refine ⟨hoc, ?_⟩
+      cases o <;> simp_all [okC, diagOK, isBlock, goodF, isChainOp]
+    · simp [h0, isChainOp, okC, diagOK, isBlock]
+  | diag dm d t0 dt =>
+    have ht0 : t0 < 4 := by simpa [goodF] using hx
+    have : diagFlip t0 t < 4 := by rw [diagFlip_eval t0 ht0 t ht]; exact xor_lt4 t0 ht0 t ht
+    simp [OpAlgebra.flip, isChainOp, okC, diagOK, isBlock, this]
+  | scaling d c dt => simp [OpAlgebra.flip, isChainOp, okC, diagOK, isBlock]
+  | leaf a b c d => unfold OpAlgebra.flip; split <;> simp [isChainOp, okC, diagOK, isBlock]
+  | idEntry d => unfold OpAlgebra.flip; split <;> simp [isChainOp, okC, diagOK, isBlock]
+  | null a b => unfold OpAlgebra.flip; split <;> simp [isChainOp, okC, diagOK, isBlock]
+  | sum a b => unfold OpAlgebra.flip; split <;> simp [isChainOp, okC, diagOK, isBlock]
+  | sandwich a b c => unfold OpAlgebra.flip; split <;> simp [isChainOp, okC, diagOK, isBlock]
+  | invEnabler a => unfold OpAlgebra.flip; split <;> simp [isChainOp, okC, diagOK, isBlock]
+
+
+theorem goodF_chain (ops : List (Op K (X → K))) (h : goodF (Op.chain ops) = true) :
+    ops ≠ [] ∧ ∀ x ∈ ops, goodF x = true ∧ isBlock x = false ∧ isChainOp x = false := by
+  simp only [goodF, Bool.and_eq_true, Bool.not_eq_true', List.isEmpty_eq_false_iff, List.all_map, List.all_eq_true,
+    Function.comp, id] at h
+  refine ⟨h.1, fun x hx => ?_⟩
+  have := h.2 x hx
+  exact ⟨this.1.1, this.1.2, this.2⟩
+
+/-- **`_flip_modes` preserves the action for every operator, chains included, in all four modes**: mode `s` of
+    `op._flip_modes(t)` is mode `s xor t` of `op` (chains: the members are flipped and the list is reversed exactly for the
+    adjoint and the inverse, kept for adjoint-inverse, then handed to `ChainOperator.make`) -/
+theorem flip_sound (hre : ∀ c, isReal c = true → re c = c) (o : Op K (X → K)) (t : Nat) (ht : t < 4) (hg : goodF o = true)
+    (s : Nat) (hs : s < 4) :
+    den S (OpAlgebra.flip S o t) (1 <<< s) = den S o (1 <<< (s ^^^ t)) := by
+  fun_induction OpAlgebra.flip S o t generalizing s with
+  | case1 o t0 t nt h0 =>
+    have ht0 : t0 < 4 := by simp only [goodF, Bool.and_eq_true, decide_eq_true_eq] at hg; exact hg.1.1.1
+    have := flip_adapter_sound isReal re blocks leaf o t0 t s ht0 ht hs
+    unfold OpAlgebra.flip at this
+    have h0' : adapterFlip t0 t = 0 := by simpa using h0
+    simpa [h0'] using this
+  | case2 o t0 t nt h0 =>
+    have ht0 : t0 < 4 := by simp only [goodF, Bool.and_eq_true, decide_eq_true_eq] at hg; exact hg.1.1.1
+    have := flip_adapter_sound isReal re blocks leaf o t0 t s ht0 ht hs
+    unfold OpAlgebra.flip at this
+    have h0' : ¬ adapterFlip t0 t = 0 := by simpa using h0
+    simpa [h0'] using this
+  | case3 d c dt t =>
+    have := flip_scaling_sound isReal re blocks leaf d c dt t s ht hs
+    unfold OpAlgebra.flip at this
+    exact this
+  | case4 dm d t0 dt t =>
+    have ht0 : t0 < 4 := by simpa [goodF] using hg
+    have := flip_diag_sound isReal re blocks leaf dm d t0 dt t s ht0 ht hs
+    unfold OpAlgebra.flip at this
+    exact this
+  | case5 ops t h0 =>
+    have : t = 0 := by simpa using h0
+    subst this; simp
+  | case6 ops t h0 hrev ih =>
+    have ht0 : t ≠ 0 := by simpa using h0
+    have ht12 : t = 1 ∨ t = 2 := ((chainFlipReversed_eval t ht ht0).1).mp hrev
+    obtain ⟨hne, hmem⟩ := goodF_chain ops hg
+    have hF : FUEL = 63 + 1 := rfl
+    have hL : ∀ y ∈ ops.reverse.map (OpAlgebra.flip S · t), isChainOp y = false ∧ okC y = true := by
+      intro y hy
+      simp only [List.mem_map, List.mem_reverse] at hy
+      obtain ⟨x, hx, rfl⟩ := hy
+      exact flip_member isReal re blocks leaf x t ht (hmem x hx).1 (hmem x hx).2.1 (hmem x hx).2.2
+    rw [hF, mkChainU_sound isReal re blocks leaf hre 63 _ s hs (by simpa using hne)
+      (by intro y hy l hl; have := (hL y hy).1; rw [hl] at this; simp [isChainOp] at this)
+      (by rw [chainFlatten_nochain _ (fun y hy => (hL y hy).1)]; exact fun y hy => (hL y hy).2),
+      den_chain_mprod isReal re blocks leaf ops (s ^^^ t) (xor_lt4 s hs t ht) hne]
+    rw [List.map_map, List.map_reverse, mprod_reverse]
+    have hr : revOf (s ^^^ t) = !revOf s := by
+      rcases ht12 with rfl | rfl
+      · exact (revOf_xor s hs).1
+      · exact (revOf_xor s hs).2.1
+    rw [hr]
+    congr 1
+    apply List.map_congr_left
+    intro x hx
+    exact ih x hx ht (hmem x hx).1 s hs
+  | case7 ops t h0 hrev ih =>
+    have ht0 : t ≠ 0 := by simpa using h0
+    have ht3 : t = 3 := ((chainFlipReversed_eval t ht ht0).2).mp hrev
+    obtain ⟨hne, hmem⟩ := goodF_chain ops hg
+    have hF : FUEL = 63 + 1 := rfl
+    have hL : ∀ y ∈ ops.map (OpAlgebra.flip S · t), isChainOp y = false ∧ okC y = true := by
+      intro y hy
+      simp only [List.mem_map] at hy
+      obtain ⟨x, hx, rfl⟩ := hy
+      exact flip_member isReal re blocks leaf x t ht (hmem x hx).1 (hmem x hx).2.1 (hmem x hx).2.2
+    rw [hF, mkChainU_sound isReal re blocks leaf hre 63 _ s hs (by simpa using hne)
+      (by intro y hy l hl; have := (hL y hy).1; rw [hl] at this; simp [isChainOp] at this)
+      (by rw [chainFlatten_nochain _ (fun y hy => (hL y hy).1)]; exact fun y hy => (hL y hy).2),
+      den_chain_mprod isReal re blocks leaf ops (s ^^^ t) (xor_lt4 s hs t ht) hne]
+    rw [List.map_map]
+    have hr : revOf (s ^^^ t) = revOf s := by subst ht3; exact (revOf_xor s hs).2.2
+    rw [hr]
+    congr 1
+    apply List.map_congr_left
+    intro x hx
+    exact ih x hx ht (hmem x hx).1 s hs
+  | case8 o t _ _ _ _ h0 =>
+    have : t = 0 := by simpa using h0
+    subst this; simp
+  | case9 o t _ _ _ _ h0 =>
+    exact den_adapter isReal re blocks leaf o t s ht hs
+
+
+/-- **InversionEnabler**: in a mode the operand does not advertise the code solves `invop · r = x` with
+    `invop = op._flip_modes(_ilog[invmode])` applied in mode TIMES; that operator acts as the operand's `invmode`
+    (= mode `s xor INVERSE`), which is what the model inverts -/
+theorem invEnabler_invop_sound (hre : ∀ c, isReal c = true → re c = c) (o : Op K (X → K)) (hg : goodF o = true)
+    (s : Nat) (hs : s < 4) :
+    den S (OpAlgebra.flip S o (ilogN (invEnablerInvMode (1 <<< s)))) TIMES = den S o (invEnablerInvMode (1 <<< s)) ∧
+    (¬ invEnablerDelegates (cap o) (1 <<< s) = true →
+      den S (Op.invEnabler o) (1 <<< s) = (den S o (1 <<< (s ^^^ INVERSE_BIT)))⁻¹) := by
+  have h1 : invEnablerInvMode (1 <<< s) = 1 <<< (s ^^^ 2) := by revert s; decide
+  have h2 : ilogN (1 <<< (s ^^^ 2)) = s ^^^ 2 := by revert s; decide
+  have h3 : s ^^^ 2 < 4 := xor_lt4 s hs 2 (by decide)
+  refine ⟨?_, ?_⟩
+  · rw [h1, h2]
+    have := flip_sound isReal re blocks leaf hre o (s ^^^ 2) h3 hg 0 (by decide)
+    simpa [TIMES] using this
+  · intro hnd
+    rw [den]
+    simp only [hnd, if_false, h1]
+    rfl
+
+/-! ### Part 7 — operands of `ChainOperator.make`, `@`, `.scale`, and SandwichOperator.make with all its shortcuts -/
+
+/-- an operator that may be handed to `ChainOperator.make`: if it is a chain it is non-empty, and its members (or itself) satisfy `okC` -/
+def opnd (x : Op K (X → K)) : Prop := (∀ l, x = Op.chain l → l ≠ []) ∧ ∀ y ∈ chainFlatten [x], okC y = true
+
+theorem chainFlatten_append (l1 l2 : List (Op K (X → K))) : chainFlatten (l1 ++ l2) = chainFlatten l1 ++ chainFlatten l2 := by
+  simp [chainFlatten, List.flatMap_append]
+
+theorem chainFlatten_cons (x : Op K (X → K)) (l : List (Op K (X → K))) :
+    chainFlatten (x :: l) = chainFlatten [x] ++ chainFlatten l := chainFlatten_append [x] l
+
+theorem opnd_list (ops : List (Op K (X → K))) (h : ∀ x ∈ ops, opnd x) :
+    (∀ o ∈ ops, ∀ l, o = Op.chain l → l ≠ []) ∧ ∀ y ∈ chainFlatten ops, okC y = true := by
+  refine ⟨fun o ho => (h o ho).1, ?_⟩
+  induction ops with
+  | nil => simp [chainFlatten]
+  | cons x xs ih =>
+    intro y hy
+    rw [chainFlatten_cons, List.mem_append] at hy
+    rcases hy with hy | hy
+    · exact (h x (by simp)).2 y hy
+    · exact ih (fun z hz => h z (by simp [hz])) y hy
+
+theorem opnd_of_okC (x : Op K (X → K)) (h : okC x = true) : opnd x := by
+  have hc : isChainOp x = false := by
+    simp only [okC, Bool.and_eq_true, Bool.not_eq_true'] at h; exact h.2
+  refine ⟨?_, ?_⟩
+  · intro l hl; rw [hl] at hc; simp [isChainOp] at hc
+  · rw [chainFlatten_nochain [x] (by intro y hy; simp at hy; rw [hy]; exact hc)]
+    intro y hy; simp at hy; rw [hy]; exact h
+
+/-- the result of `ChainOperator.make` can itself be handed to `ChainOperator.make` -/
+theorem mkChainU_opnd (hre : ∀ c, isReal c = true → re c = c) (fuel : Nat) (ops : List (Op K (X → K)))
+    (hne0 : ops ≠ []) (h : ∀ x ∈ ops, opnd x) : opnd (mkChainU S (fuel + 1) ops) := by
+  obtain ⟨hne, hok⟩ := opnd_list ops h
+  rw [mkChainU]
+  have hcore := chainSimplifyCore_sound isReal re blocks leaf hre (mkChainU S fuel) ops 0 (by decide) hne hok
+  have hres : ∀ L, L = chainSimplify S (mkChainU S fuel) ops →
+      (∃ x ∈ ops, L = [x]) ∨ (L ≠ [] ∧ ∀ y ∈ L, okC y = true) := by
+    intro L hL
+    unfold chainSimplify at hL
+    split at hL
+    · exact Or.inl ⟨_, by simp, hL⟩
+    · split at hL
+      · exact Or.inl ⟨_, by simp, hL⟩
+      · split at hL
+        · exact Or.inl ⟨_, by simp, hL⟩
+        · exact Or.inr (hL ▸ hcore.2)
+    · exact Or.inr (hL ▸ hcore.2)
+  rcases hres _ rfl with ⟨x, hx, hL⟩ | ⟨hLne, hLok⟩
+  · rw [hL]; exact h x hx
+  · split
+    · rename_i o heq
+      exact opnd_of_okC _ (hLok o (by rw [heq]; simp))
+    · rename_i L' hL'
+      refine ⟨fun l hl => by injection hl with hl; rw [← hl]; exact hLne, ?_⟩
+      have : chainFlatten [Op.chain (chainSimplify S (mkChainU S fuel) ops)] = chainSimplify S (mkChainU S fuel) ops := by
+        simp [chainFlatten]
+      rw [this]; exact hLok
+
+/-- `a @ b` (LinearOperator.__matmul__): the mode-ordered product of the two operands -/
+theorem matmul_sound (hre : ∀ c, isReal c = true → re c = c) (a b r : Op K (X → K)) (h : matmul S a b = .ok r)
+    (ha : opnd a) (hb : opnd b) (s : Nat) (hs : s < 4) :
+    den S r (1 <<< s) = mprod (revOf s) [den S a (1 <<< s), den S b (1 <<< s)] ∧ opnd r := by
+  unfold matmul at h
+  split at h
+  · rename_i hid
+    injection h with h; subst h
+    refine ⟨?_, ha⟩
+    simp only [mprod_cons, mprod_nil, isIdentity_den isReal re blocks leaf b hid]
+    cases revOf s <;> simp
+  · unfold mkChain at h
+    have hF : FUEL = 63 + 1 := rfl
+    have hlist : ∀ x ∈ [a, b], opnd x := by
+      intro x hx; simp only [List.mem_cons, List.not_mem_nil, or_false] at hx
+      rcases hx with rfl | rfl
+      · exact ha
+      · exact hb
+    obtain ⟨hne, hok⟩ := opnd_list [a, b] hlist
+    simp only [List.isEmpty_cons, Bool.false_eq_true, if_false, List.length_cons, List.length_nil] at h
+    split at h
+    · rename_i hl; simp at hl
+    · split at h
+      · injection h with h; subst h
+        rw [hF]
+        exact ⟨mkChainU_sound isReal re blocks leaf hre 63 [a, b] s hs (by simp) hne hok,
+          mkChainU_opnd isReal re blocks leaf hre 63 [a, b] (by simp) hlist⟩
+      · cases h
+
+
+theorem goodF_diagOK (y : Op K (X → K)) (h : goodF y = true) : diagOK y = true := by
+  cases y <;> simp_all [goodF, diagOK]
+
+/-- a flipped operator can be handed to `ChainOperator.make` -/
+theorem flip_opnd (hre : ∀ c, isReal c = true → re c = c) (x : Op K (X → K)) (t : Nat) (ht : t < 4) (hg : goodF x = true)
+    (hb : isBlock x = false) : opnd (OpAlgebra.flip S x t) := by
+  by_cases hc : isChainOp x = true
+  · obtain ⟨l, rfl⟩ : ∃ l, x = Op.chain l := by cases x <;> simp [isChainOp] at hc; exact ⟨_, rfl⟩
+    obtain ⟨hne, hmem⟩ := goodF_chain l hg
+    unfold OpAlgebra.flip
+    have hF : FUEL = 63 + 1 := rfl
+    split
+    · exact ⟨fun l' hl' => by injection hl' with hl'; rw [← hl']; exact hne, by
+        rw [show chainFlatten [Op.chain l] = l by simp [chainFlatten]]
+        intro y hy
+        obtain ⟨h1, h2, h3⟩ := hmem y hy
+        simp [okC, goodF_diagOK y h1, h2, h3]⟩
+    · split
+      · rw [hF]
+        apply mkChainU_opnd isReal re blocks leaf hre 63 _ (by simpa using hne)
+        intro y hy
+        simp only [List.mem_map, List.mem_reverse] at hy
+        obtain ⟨z, hz, rfl⟩ := hy
+        exact opnd_of_okC _ (flip_member isReal re blocks leaf z t ht (hmem z hz).1 (hmem z hz).2.1 (hmem z hz).2.2).2
+      · rw [hF]
+        apply mkChainU_opnd isReal re blocks leaf hre 63 _ (by simpa using hne)
+        intro y hy
+        simp only [List.mem_map] at hy
+        obtain ⟨z, hz, rfl⟩ := hy
+        exact opnd_of_okC _ (flip_member isReal re blocks leaf z t ht (hmem z hz).1 (hmem z hz).2.1 (hmem z hz).2.2).2
+  · have hc' : isChainOp x = false := by simpa using hc
+    exact opnd_of_okC _ (flip_member isReal re blocks leaf x t ht hg hb hc').2
+
+theorem adjointOf_nonsum (x : Op K (X → K)) (h : isSumOp x = false) : adjointOf S x = OpAlgebra.flip S x ADJOINT_BIT := by
+  cases x <;> first | (simp [isSumOp] at h; done) | (simp only [adjointOf])
+
+theorem modeScalar_xor1 (c : K) (s : Nat) (hs : s < 4) : modeScalar c (s ^^^ 1) = modeScalar (star c) s := by
+  interval_cases s <;> simp [modeScalar]
+
+/-- `op.scale(f)` (Operator.scale): every mode is the mode-scalar of `f` times the operator -/
+theorem scale_sound (hre : ∀ c, isReal c = true → re c = c) (o r : Op K (X → K)) (f : K) (h : scale S o f = .ok r) (ho : opnd o)
+    (s : Nat) (hs : s < 4) : den S r (1 <<< s) = modeScalar f s • den S o (1 <<< s) := by
+  unfold scale at h
+  have hk : (msem isReal re blocks leaf).keq f (msem isReal re blocks leaf).kone = decide (f = 1) := rfl
+  rw [hk] at h
+  by_cases hf : f = 1
+  · simp only [hf, decide_true, if_true] at h
+    injection h with h; subst h; rw [hf, modeScalar_one s hs, one_smul]
+  · have : decide (f = 1) = false := by simpa using hf
+    simp only [this, Bool.false_eq_true, if_false] at h
+    unfold callOp at h
+    have hid : isIdentity S (Op.scaling (tgt o) f 0 : Op K (X → K)) = false := by
+      simp [isIdentity, msem, hf]
+    simp only [hid, Bool.false_eq_true, if_false] at h
+    have hsc : opnd (Op.scaling (tgt o) f 0 : Op K (X → K)) := opnd_of_okC _ (by simp [okC, diagOK, isBlock, isChainOp])
+    rw [(matmul_sound isReal re blocks leaf hre _ _ _ h hsc ho s hs).1, den_scaling isReal re blocks leaf _ f 0 s hs]
+    simp only [mprod_cons, mprod_nil]
+    cases revOf s <;> simp
+
+/-- **SandwichOperator.make** (second part, all shortcuts): the result acts in every mode as the mode-ordered product of
+    `bun.adjoint`, `cheese`, `bun` — for a scaling bun `g` that is `|g|²·cheese` (returned as the cheese itself when `|g|² = 1`) -/
+theorem sandwichCore_sound (hre : ∀ c, isReal c = true → re c = c) (bun cheese r : Op K (X → K))
+    (h : sandwichCore S bun cheese = .ok r) (hg : goodF bun = true) (hb : isBlock bun = false) (hsum : isSumOp bun = false)
+    (hbo : opnd bun) (hco : opnd cheese) (s : Nat) (hs : s < 4) :
+    den S r (1 <<< s) =
+      mprod (revOf s) [den S bun (1 <<< (s ^^^ 1)), den S cheese (1 <<< s), den S bun (1 <<< s)] := by
+  have hx : s ^^^ 1 < 4 := xor_lt4 s hs 1 (by decide)
+  unfold sandwichCore at h
+  split at h
+  · rename_i d c dt
+    have hk : (msem isReal re blocks leaf).keq ((msem isReal re blocks leaf).kabs2 c) (msem isReal re blocks leaf).kone =
+        decide (c * star c = 1) := rfl
+    rw [hk] at h
+    have hprod : mprod (revOf s) [den S (Op.scaling d c dt) (1 <<< (s ^^^ 1)), den S cheese (1 <<< s),
+        den S (Op.scaling d c dt) (1 <<< s)] = modeScalar (c * star c) s • den S cheese (1 <<< s) := by
+      rw [den_scaling isReal re blocks leaf d c dt _ hx, den_scaling isReal re blocks leaf d c dt s hs,
+        modeScalar_xor1 c s hs, modeScalar_mul _ _ s hs]
+      simp only [mprod_cons, mprod_nil]
+      cases revOf s <;> simp [smul_smul, mul_comm]
+    rw [hprod]
+    by_cases hf : c * star c = 1
+    · simp only [hf, decide_true, if_true] at h
+      injection h with h; subst h
+      rw [hf, modeScalar_one s hs, one_smul]
+    · have : decide (c * star c = 1) = false := by simpa using hf
+      simp only [this, Bool.false_eq_true, if_false] at h
+      split at h
+      · rename_i op hop
+        injection h with h; subst h
+        rw [den_sandwich]
+        exact scale_sound isReal re blocks leaf hre cheese op _ hop hco s hs
+      · cases h
+  · rename_i hns
+    rw [adjointOf_nonsum isReal re blocks leaf bun hsum] at h
+    split at h
+    · cases h
+    · rename_i t ht
+      split at h
+      · rename_i op hop
+        injection h with h; subst h
+        rw [den_sandwich]
+        have hadj : opnd (OpAlgebra.flip S bun ADJOINT_BIT) := flip_opnd isReal re blocks leaf hre bun 1 (by decide) hg hb
+        obtain ⟨ht1, ht2⟩ := matmul_sound isReal re blocks leaf hre _ _ _ ht hadj hco s hs
+        have hfl : den S (OpAlgebra.flip S bun ADJOINT_BIT) (1 <<< s) = den S bun (1 <<< (s ^^^ 1)) :=
+          flip_sound isReal re blocks leaf hre bun 1 (by decide) hg s hs
+        rw [(matmul_sound isReal re blocks leaf hre _ _ _ hop ht2 hbo s hs).1, ht1, hfl]
+        simp only [mprod_cons, mprod_nil]
+        cases revOf s <;> simp [Matrix.mul_assoc]
+      · cases h
+
+
+/-- **SandwichOperator.make(bun, cheese)** for a cheese that is not itself a SandwichOperator (`none`: the identity): every
+    shortcut included, the result acts in mode `s` as the mode-ordered product of `bun.adjoint`, `cheese`, `bun` -/
+theorem mkSandwich_sound (hre : ∀ c, isReal c = true → re c = c) (bun : Op K (X → K)) (cheese : Option (Op K (X → K)))
+    (dt : Nat) (r : Op K (X → K)) (h : mkSandwich S bun cheese dt = .ok r)
+    (hns : ∀ c, cheese = some c → isSandwichOp c = false ∧ opnd c)
+    (hg : goodF bun = true) (hb : isBlock bun = false) (hsum : isSumOp bun = false) (hbo : opnd bun) (s : Nat) (hs : s < 4) :
+    den S r (1 <<< s) = mprod (revOf s) [den S bun (1 <<< (s ^^^ 1)),
+      (match cheese with | some c => den S c (1 <<< s) | none => 1), den S bun (1 <<< s)] := by
+  unfold mkSandwich sandwichArgs at h
+  cases cheese with
+  | none =>
+    simp only at h
+    have hco : opnd (Op.scaling (tgt bun) (msem isReal re blocks leaf).kone dt : Op K (X → K)) :=
+      opnd_of_okC _ (by simp [okC, diagOK, isBlock, isChainOp])
+    rw [sandwichCore_sound isReal re blocks leaf hre bun _ r h hg hb hsum hbo hco s hs]
+    have : den S (Op.scaling (tgt bun) (msem isReal re blocks leaf).kone dt : Op K (X → K)) (1 <<< s) = 1 :=
+      isIdentity_den isReal re blocks leaf _ (by simp [isIdentity, msem]) _
+    rw [this]
+  | some c =>
+    obtain ⟨hc1, hc2⟩ := hns c rfl
+    cases c with
+    | sandwich a b o => simp [isSandwichOp] at hc1
+    | _ =>
+      simp only at h
+      exact sandwichCore_sound isReal re blocks leaf hre bun _ r h hg hb hsum hbo hc2 s hs
+
+/-! ### Part 8 — the shape invariant `Inv` of constructed operators and its preservation by every constructor -/
+
+/-- predicates on operators that hold for the fresh operators the simplifiers create -/
+structure Fresh (P : Op K (X → K) → Prop) : Prop where
+  scaling : ∀ d c dt, P (Op.scaling d c dt)
+  diag0 : ∀ dm d dt, P (Op.diag dm d 0 dt)
+  null : ∀ d t, P (Op.null d t)
+
+theorem chainAbsorb_pres (P : Op K (X → K) → Prop) (hP : Fresh P) (f : K) (l : List (Op K (X → K))) (h : ∀ y ∈ l, P y) :
+    ∀ y ∈ (chainAbsorb S f l).1, P y := by
+  induction l with
+  | nil => simp [chainAbsorb]
+  | cons o os ih =>
+    by_cases hd : isDiag o = true
+    · obtain ⟨dm, d, t, dt, rfl⟩ := isDiag_cases o hd
+      simp only [chainAbsorb, hd, if_true]
+      intro y hy
+      simp only [List.mem_cons] at hy
+      rcases hy with rfl | hy
+      · exact hP.diag0 _ _ _
+      · exact h y (by simp [hy])
+    · have hd' : isDiag o = false := by simpa using hd
+      simp only [chainAbsorb, hd', Bool.false_eq_true, if_false]
+      intro y hy
+      simp only [List.mem_cons] at hy
+      rcases hy with rfl | hy
+      · exact h _ (by simp)
+      · exact ih (fun z hz => h z (by simp [hz])) y hy
+
+theorem chainMergeDiag_pres (P : Op K (X → K) → Prop) (hP : Fresh P) (l : List (Op K (X → K))) (h : ∀ y ∈ l, P y) :
+    ∀ y ∈ chainMergeDiag S l, P y := by
+  fun_induction chainMergeDiag S l with
+  | case1 a b rest hab ih =>
+    simp only [Bool.and_eq_true] at hab
+    obtain ⟨dm1, d1, t1, dt1, rfl⟩ := isDiag_cases a hab.1
+    obtain ⟨dm2, d2, t2, dt2, rfl⟩ := isDiag_cases b hab.2
+    apply ih
+    intro y hy
+    simp only [List.mem_cons] at hy
+    rcases hy with rfl | hy
+    · exact hP.diag0 _ _ _
+    · exact h y (by simp [hy])
+  | case2 a b rest hab ih =>
+    intro y hy
+    simp only [List.mem_cons] at hy
+    rcases hy with rfl | hy
+    · exact h _ (by simp)
+    · exact ih (fun z hz => h z (by simp only [List.mem_cons] at hz ⊢; tauto)) y hy
+  | case3 l hl => exact h
+
+theorem chainNullCollapse_pres (P : Op K (X → K) → Prop) (hP : Fresh P) (l : List (Op K (X → K))) (h : ∀ y ∈ l, P y) :
+    ∀ y ∈ chainNullCollapse l, P y := by
+  unfold chainNullCollapse
+  split
+  · intro y hy; simp only [List.mem_singleton] at hy; rw [hy]; exact hP.null _ _
+  · exact h
+
+theorem chainPost_pres (P : Op K (X → K) → Prop) (hP : Fresh P) (mk : List (Op K (X → K)) → Op K (X → K))
+    (l : List (Op K (X → K))) (h : ∀ y ∈ l, P y) (hok : ∀ y ∈ l, okC y = true) : ∀ y ∈ chainPost S mk l, P y := by
+  simp only [chainPost]
+  -- the list before the merges satisfies P and okC
+  have key : ∀ (l3 : List (Op K (X → K))), (∀ y ∈ l3, P y) → (∀ y ∈ l3, okC y = true) →
+      ∀ y ∈ chainMergeBlock S mk (chainMergeDiag S l3), P y := by
+    intro l3 h3 hok3
+    have h2 := (chainMergeDiag_sound isReal re blocks leaf l3 0 (by decide) hok3).2
+    rw [chainMergeBlock_noblock isReal re blocks leaf mk _ (fun o ho => by
+      have := h2 o ho
+      simp only [okC, Bool.and_eq_true, Bool.not_eq_true'] at this
+      exact this.1.2)]
+    exact chainMergeDiag_pres isReal re blocks leaf P hP l3 h3
+  generalize l.foldl (chainCollectStep S) (msem isReal re blocks leaf).kone = fct
+  have hf1 : ∀ y ∈ l.filter (fun o => !isRealScaling S o), P y := fun y hy => h y (List.mem_of_mem_filter hy)
+  have hf2 : ∀ y ∈ l.filter (fun o => !isRealScaling S o), okC y = true := fun y hy => hok y (List.mem_of_mem_filter hy)
+  generalize l.filter (fun o => !isRealScaling S o) = opsnew at hf1 hf2 ⊢
+  have hk : ∀ f : K, (msem isReal re blocks leaf).keq f (msem isReal re blocks leaf).kone = decide (f = 1) := fun _ => rfl
+  have app : ∀ (l3 : List (Op K (X → K))) (c : Bool) (f : K), (∀ y ∈ l3, P y) → (∀ y ∈ l3, okC y = true) →
+      (∀ y ∈ (if (c || l3.isEmpty) = true then l3 ++ [Op.scaling (lastDom l) f 0] else l3), P y) ∧
+      (∀ y ∈ (if (c || l3.isEmpty) = true then l3 ++ [Op.scaling (lastDom l) f 0] else l3), okC y = true) := by
+    intro l3 c f h3 hok3
+    constructor
+    · intro y hy
+      split at hy
+      · simp only [List.mem_append, List.mem_singleton] at hy
+        rcases hy with hy | rfl
+        · exact h3 y hy
+        · exact hP.scaling _ _ _
+      · exact h3 y hy
+    · intro y hy
+      split at hy
+      · simp only [List.mem_append, List.mem_singleton] at hy
+        rcases hy with hy | rfl
+        · exact hok3 y hy
+        · simp [okC, diagOK, isBlock, isChainOp]
+      · exact hok3 y hy
+  by_cases hf : fct = 1
+  · subst hf
+    simp only [hk, decide_true, Bool.not_true, Bool.false_eq_true, if_false]
+    obtain ⟨a1, a2⟩ := app opsnew false 1 hf1 hf2
+    exact key _ a1 a2
+  · have hdf : decide (fct = 1) = false := by simpa using hf
+    simp only [hk, hdf, Bool.not_false, if_true]
+    obtain ⟨a1, a2⟩ := app (chainAbsorb S fct opsnew).1 (!decide ((chainAbsorb S fct opsnew).2 = 1)) (chainAbsorb S fct opsnew).2
+      (chainAbsorb_pres isReal re blocks leaf P hP fct opsnew hf1)
+      (chainAbsorb_sound isReal re blocks leaf fct opsnew 0 (by decide) hf2).2
+    exact key _ a1 a2
+
+
+/-- shape invariant of the operator objects the (modelled) constructors produce from block-free scripts: transformations are 0..3,
+    adapters never wrap chains, chains are non-empty and flat, sums are flat, no block-diagonal operators -/
+def Inv : Op K (X → K) → Bool
+  | .leaf _ _ _ _ => true
+  | .scaling _ _ _ => true
+  | .null _ _ => true
+  | .diag _ _ t _ => decide (t < 4)
+  | .idEntry _ => false
+  | .blockdiag _ _ => false
+  | .adapter o t => decide (t < 4) && Inv o && !isChainOp o
+  | .chain l => !l.isEmpty && (l.map fun x => Inv x && !isChainOp x).all id
+  | .sum l _ => (l.map fun x => Inv x && !isSumOp x).all id
+  | .sandwich _ _ op => Inv op
+  | .invEnabler o => Inv o
+
+theorem Inv_notBlock (o : Op K (X → K)) (h : Inv o = true) : isBlock o = false := by
+  cases o <;> simp_all [Inv, isBlock]
+
+theorem Inv_chain (l : List (Op K (X → K))) (h : Inv (Op.chain l) = true) :
+    l ≠ [] ∧ ∀ x ∈ l, Inv x = true ∧ isChainOp x = false := by
+  simp only [Inv, Bool.and_eq_true, Bool.not_eq_true', List.isEmpty_eq_false_iff, List.all_map, List.all_eq_true,
+    Function.comp, id] at h
+  exact ⟨h.1, fun x hx => h.2 x hx⟩
+
+theorem Inv_chain_mk (l : List (Op K (X → K))) (hne : l ≠ []) (h : ∀ x ∈ l, Inv x = true ∧ isChainOp x = false) :
+    Inv (Op.chain l) = true := by
+  simp only [Inv, Bool.and_eq_true, Bool.not_eq_true', List.isEmpty_eq_false_iff, List.all_map, List.all_eq_true,
+    Function.comp, id]
+  exact ⟨hne, fun x hx => h x hx⟩
+
+theorem Inv_goodF (o : Op K (X → K)) (h : Inv o = true) : goodF o = true := by
+  induction o using goodF.induct with
+  | case1 dm d t dt => simpa [Inv, goodF] using h
+  | case2 o t ih =>
+    simp only [Inv, Bool.and_eq_true, decide_eq_true_eq, Bool.not_eq_true'] at h
+    simp only [goodF, Bool.and_eq_true, decide_eq_true_eq, Bool.not_eq_true']
+    exact ⟨⟨⟨h.1.1, ih h.1.2⟩, h.2⟩, Inv_notBlock o h.1.2⟩
+  | case3 ops ih =>
+    obtain ⟨hne, hm⟩ := Inv_chain ops h
+    simp only [goodF, Bool.and_eq_true, Bool.not_eq_true', List.isEmpty_eq_false_iff, List.all_map, List.all_eq_true,
+      Function.comp, id]
+    exact ⟨hne, fun x hx => ⟨⟨ih x hx (hm x hx).1, Inv_notBlock x (hm x hx).1⟩, (hm x hx).2⟩⟩
+  | case4 o h1 h2 h3 => cases o <;> simp_all [goodF, Inv]
+
+theorem Inv_diagOK (o : Op K (X → K)) (h : Inv o = true) : diagOK o = true := by
+  cases o <;> simp_all [Inv, diagOK]
+
+theorem Inv_okC (o : Op K (X → K)) (h : Inv o = true) (hc : isChainOp o = false) : okC o = true := by
+  simp [okC, Inv_diagOK o h, Inv_notBlock o h, hc]
+
+theorem Inv_okS (o : Op K (X → K)) (h : Inv o = true) : okS o = true := by
+  simp [okS, Inv_diagOK o h, Inv_notBlock o h]
+
+theorem Inv_opnd (o : Op K (X → K)) (h : Inv o = true) : opnd o := by
+  by_cases hc : isChainOp o = true
+  · obtain ⟨l, rfl⟩ : ∃ l, o = Op.chain l := by cases o <;> simp [isChainOp] at hc; exact ⟨_, rfl⟩
+    obtain ⟨hne, hm⟩ := Inv_chain l h
+    refine ⟨fun l' hl' => by injection hl' with hl'; rw [← hl']; exact hne, ?_⟩
+    rw [show chainFlatten [Op.chain l] = l by simp [chainFlatten]]
+    exact fun y hy => Inv_okC y (hm y hy).1 (hm y hy).2
+  · exact opnd_of_okC _ (Inv_okC o h (by simpa using hc))
+
+theorem chainFlatten_members (P : Op K (X → K) → Prop) (ops : List (Op K (X → K)))
+    (h : ∀ x ∈ ops, (isChainOp x = false → P x) ∧ (∀ l, x = Op.chain l → ∀ y ∈ l, P y)) : ∀ y ∈ chainFlatten ops, P y := by
+  induction ops with
+  | nil => simp [chainFlatten]
+  | cons x xs ih =>
+    intro y hy
+    rw [chainFlatten_cons, List.mem_append] at hy
+    rcases hy with hy | hy
+    · cases x with
+      | chain l =>
+        rw [show chainFlatten [Op.chain l] = l by simp [chainFlatten]] at hy
+        exact (h _ (by simp)).2 l rfl y hy
+      | _ =>
+        simp only [chainFlatten, List.flatMap_cons, List.flatMap_nil, List.append_nil, List.mem_singleton] at hy
+        rw [hy]; exact (h _ (by simp)).1 (by simp [isChainOp])
+    · exact ih (fun z hz => h z (by simp [hz])) y hy
+
+/-- **ChainOperator.make preserves the shape invariant** -/
+theorem mkChainU_Inv (hre : ∀ c, isReal c = true → re c = c) (fuel : Nat) (ops : List (Op K (X → K))) (hne0 : ops ≠ [])
+    (h : ∀ x ∈ ops, Inv x = true) : Inv (mkChainU S (fuel + 1) ops) = true := by
+  let P : Op K (X → K) → Prop := fun y => Inv y = true ∧ isChainOp y = false
+  have hP : Fresh P := ⟨fun _ _ _ => by simp [P, Inv, isChainOp], fun _ _ _ => by simp [P, Inv, isChainOp],
+    fun _ _ => by simp [P, Inv, isChainOp]⟩
+  have hflat : ∀ y ∈ chainFlatten ops, P y := by
+    apply chainFlatten_members
+    intro x hx
+    exact ⟨fun hc => ⟨h x hx, hc⟩, fun l hl y hy => by
+      have := h x hx; rw [hl] at this; exact (Inv_chain l this).2 y hy⟩
+  have hflatok : ∀ y ∈ chainFlatten ops, okC y = true := fun y hy => Inv_okC y (hflat y hy).1 (hflat y hy).2
+  obtain ⟨hne, _⟩ := opnd_list ops (fun x hx => Inv_opnd x (h x hx))
+  have hcoreP : ∀ y ∈ chainSimplifyCore S (mkChainU S fuel) ops, P y := by
+    unfold chainSimplifyCore
+    have h1 := chainNullCollapse_pres P hP _ hflat
+    have h2 := (chainNullCollapse_sound isReal re blocks leaf _ 0 (by decide) hflatok).2
+    exact chainPost_pres isReal re blocks leaf P hP _ _ h1 h2
+  have hcorene := (chainSimplifyCore_sound isReal re blocks leaf hre (mkChainU S fuel) ops 0 (by decide) hne hflatok).2.1
+  have hres : ∀ L, L = chainSimplify S (mkChainU S fuel) ops →
+      (∃ x ∈ ops, L = [x]) ∨ (L ≠ [] ∧ ∀ y ∈ L, P y) := by
+    intro L hL
+    unfold chainSimplify at hL
+    split at hL
+    · exact Or.inl ⟨_, by simp, hL⟩
+    · split at hL
+      · exact Or.inl ⟨_, by simp, hL⟩
+      · split at hL
+        · exact Or.inl ⟨_, by simp, hL⟩
+        · exact Or.inr (hL ▸ ⟨hcorene, hcoreP⟩)
+    · exact Or.inr (hL ▸ ⟨hcorene, hcoreP⟩)
+  rw [mkChainU]
+  rcases hres _ rfl with ⟨x, hx, hL⟩ | ⟨hLne, hLP⟩
+  · rw [hL]; exact h x hx
+  · split
+    · rename_i o heq
+      exact (hLP o (by rw [heq]; simp)).1
+    · exact Inv_chain_mk _ hLne hLP
+
+
+theorem sumAbsorb_pres (P : Op K (X → K) → Prop) (hP : Fresh P) (c : K) (dt : Nat) (l : List (Op K (X → K) × Bool))
+    (h : ∀ p ∈ l, P p.1) : ∀ p ∈ (sumAbsorb S c dt l).1, P p.1 := by
+  induction l with
+  | nil => simp [sumAbsorb]
+  | cons p ps ih =>
+    obtain ⟨o, n⟩ := p
+    by_cases hc : (isDiag o && dtOf o == dt) = true
+    · simp only [sumAbsorb, hc, if_true]
+      simp only [Bool.and_eq_true] at hc
+      obtain ⟨dm, d, t, dt', rfl⟩ := isDiag_cases o hc.1
+      intro q hq
+      simp only [List.mem_cons] at hq
+      rcases hq with rfl | hq
+      · exact hP.diag0 _ _ _
+      · exact h q (by simp [hq])
+    · have hc' : (isDiag o && dtOf o == dt) = false := by simpa using hc
+      simp only [sumAbsorb, hc', Bool.false_eq_true, if_false]
+      intro q hq
+      simp only [List.mem_cons] at hq
+      rcases hq with rfl | hq
+      · exact h _ (by simp)
+      · exact ih (fun z hz => h z (by simp [hz])) q hq
+
+theorem sumAbsorbDiags_pres (P : Op K (X → K) → Prop) (hP : Fresh P) (dt0 : Nat) (acc : Op K (X → K)) (accneg : Bool)
+    (l : List (Op K (X → K) × Bool)) (hacc : P acc) (hd : isDiag acc = true) (h : ∀ p ∈ l, P p.1) :
+    P (sumAbsorbDiags S dt0 acc accneg l).1 ∧ ∀ p ∈ (sumAbsorbDiags S dt0 acc accneg l).2.2, P p.1 := by
+  induction l generalizing acc accneg with
+  | nil => simp [sumAbsorbDiags, hacc]
+  | cons p ps ih =>
+    obtain ⟨o, n⟩ := p
+    have h' : ∀ p ∈ ps, P p.1 := fun z hz => h z (by simp [hz])
+    by_cases hc : (isDiag o && dtOf o == dt0) = true
+    · simp only [sumAbsorbDiags, hc, if_true]
+      simp only [Bool.and_eq_true] at hc
+      obtain ⟨dm, d, t, dt, rfl⟩ := isDiag_cases acc hd
+      obtain ⟨dm2, d2, t2, dt2, rfl⟩ := isDiag_cases o hc.1
+      exact ih _ false (hP.diag0 _ _ _) (by simp [diagCombineSum, isDiag]) h'
+    · have hc' : (isDiag o && dtOf o == dt0) = false := by simpa using hc
+      simp only [sumAbsorbDiags, hc', Bool.false_eq_true, if_false]
+      obtain ⟨i1, i2⟩ := ih acc accneg hacc hd h'
+      refine ⟨i1, ?_⟩
+      intro q hq
+      simp only [List.mem_cons] at hq
+      rcases hq with rfl | hq
+      · exact h _ (by simp)
+      · exact i2 q hq
+
+theorem sumMergeDiags_pres (P : Op K (X → K) → Prop) (hP : Fresh P) (l : List (Op K (X → K) × Bool)) (h : ∀ p ∈ l, P p.1) :
+    ∀ p ∈ sumMergeDiags S l, P p.1 := by
+  fun_induction sumMergeDiags S l with
+  | case1 => exact h
+  | case2 o n rest ho r ih =>
+    obtain ⟨h1, h2⟩ := sumAbsorbDiags_pres isReal re blocks leaf P hP (dtOf o) o n rest (h (o, n) (by simp)) ho
+      (fun z hz => h z (by simp [hz]))
+    intro q hq
+    simp only [List.mem_cons] at hq
+    rcases hq with rfl | hq
+    · exact h1
+    · exact ih h2 q hq
+  | case3 o n rest ho ih =>
+    intro q hq
+    simp only [List.mem_cons] at hq
+    rcases hq with rfl | hq
+    · exact h _ (by simp)
+    · exact ih (fun z hz => h z (by simp [hz])) q hq
+
+theorem sumProcessGroup_pres (P : Op K (X → K) → Prop) (hP : Fresh P) (fuel : Nat)
+    (mk : List (Op K (X → K)) → List Bool → Op K (X → K)) (opset : List (Op K (X → K) × Bool))
+    (h : ∀ p ∈ opset, P p.1) (hok : ∀ p ∈ opset, okS p.1 = true) : ∀ p ∈ sumProcessGroup S fuel mk opset, P p.1 := by
+  simp only [sumProcessGroup]
+  generalize (opset.filter fun x => isScaling x.1).foldl (sumScalStep S) (msem isReal re blocks leaf).kzero = sc
+  generalize commonDtype ((opset.filter fun x => isScaling x.1).map (fun x => dtOf x.1)) = dtype
+  have hf1 : ∀ p ∈ opset.filter (fun x => !isScaling x.1), P p.1 := fun p hp => h p (List.mem_of_mem_filter hp)
+  have hf2 : ∀ p ∈ opset.filter (fun x => !isScaling x.1), okS p.1 = true := fun p hp => hok p (List.mem_of_mem_filter hp)
+  generalize opset.filter (fun x => !isScaling x.1) = others at hf1 hf2 ⊢
+  have hk : ∀ f : K, (msem isReal re blocks leaf).keq f (msem isReal re blocks leaf).kzero = decide (f = 0) := fun _ => rfl
+  have key : ∀ (l : List (Op K (X → K) × Bool)) (c : Bool) (f : K), (∀ p ∈ l, P p.1) → (∀ p ∈ l, okS p.1 = true) →
+      ∀ p ∈ sumMergeBlocks S fuel mk (sumMergeDiags S
+        (if (c || l.isEmpty) = true then l ++ [(Op.scaling (firstDom opset) f dtype, false)] else l)), P p.1 := by
+    intro l c f hl hlok
+    have hP3 : ∀ p ∈ (if (c || l.isEmpty) = true then l ++ [(Op.scaling (firstDom opset) f dtype, false)] else l), P p.1 := by
+      intro p hp
+      split at hp
+      · simp only [List.mem_append, List.mem_singleton] at hp
+        rcases hp with hp | rfl
+        · exact hl p hp
+        · exact hP.scaling _ _ _
+      · exact hl p hp
+    have hok3 : ∀ p ∈ (if (c || l.isEmpty) = true then l ++ [(Op.scaling (firstDom opset) f dtype, false)] else l),
+        okS p.1 = true := by
+      intro p hp
+      split at hp
+      · simp only [List.mem_append, List.mem_singleton] at hp
+        rcases hp with hp | rfl
+        · exact hlok p hp
+        · simp [okS, diagOK, isBlock]
+      · exact hlok p hp
+    have hm2 := (sumMergeDiags_sound isReal re blocks leaf _ 0 (by decide) hok3).2
+    rw [sumMergeBlocks_noblock isReal re blocks leaf fuel mk _ (fun p hp => by
+      have := hm2 p hp
+      simp only [okS, Bool.and_eq_true, Bool.not_eq_true'] at this
+      exact this.2)]
+    exact sumMergeDiags_pres isReal re blocks leaf P hP _ hP3
+  by_cases hf : sc = 0
+  · subst hf
+    simp only [hk, decide_true, Bool.not_true, Bool.false_eq_true, if_false]
+    exact key others false 0 hf1 hf2
+  · have hdf : decide (sc = 0) = false := by simpa using hf
+    simp only [hk, hdf, Bool.not_false, if_true]
+    exact key _ _ _ (sumAbsorb_pres isReal re blocks leaf P hP sc dtype others hf1)
+      (sumAbsorb_sound isReal re blocks leaf sc dtype others 0 (by decide) hf2).2
+
+theorem sumSimplify_pres (P : Op K (X → K) → Prop) (hP : Fresh P) (fuel : Nat)
+    (mk : List (Op K (X → K)) → List Bool → Op K (X → K)) (ops : List (Op K (X → K))) (neg : List Bool)
+    (h : ∀ p ∈ sumFlatten ops neg, P p.1 ∧ okS p.1 = true) : ∀ p ∈ sumSimplify S fuel mk ops neg, P p.1 := by
+  simp only [sumSimplify]
+  intro p hp
+  simp only [List.mem_flatMap] at hp
+  obtain ⟨k, _, hp⟩ := hp
+  exact sumProcessGroup_pres isReal re blocks leaf P hP fuel mk _
+    (fun q hq => (h q (List.mem_of_mem_filter hq)).1) (fun q hq => (h q (List.mem_of_mem_filter hq)).2) p hp
+
+
+theorem sumFlatten_members (P : Op K (X → K) → Prop) (ops : List (Op K (X → K))) (neg : List Bool)
+    (h : ∀ x ∈ ops, (isSumOp x = false → P x) ∧ (∀ l ns, x = Op.sum l ns → ∀ y ∈ l, P y)) :
+    ∀ p ∈ sumFlatten ops neg, P p.1 := by
+  unfold sumFlatten
+  intro p hp
+  simp only [List.mem_flatMap] at hp
+  obtain ⟨x, hx, hp⟩ := hp
+  have hx1 : x.1 ∈ ops := (List.of_mem_zip hx).1
+  obtain ⟨o, n⟩ := x
+  cases o with
+  | sum l ns =>
+    simp only at hp
+    exact (h _ hx1).2 l ns rfl p.1 (List.of_mem_zip hp).1
+  | _ =>
+    simp only [List.mem_singleton] at hp
+    rw [hp]; exact (h _ hx1).1 (by simp [isSumOp])
+
+theorem Inv_sum (l : List (Op K (X → K))) (ns : List Bool) (h : Inv (Op.sum l ns) = true) :
+    ∀ x ∈ l, Inv x = true ∧ isSumOp x = false := by
+  simp only [Inv, List.all_map, List.all_eq_true, Function.comp, id, Bool.and_eq_true, Bool.not_eq_true'] at h
+  exact h
+
+theorem Inv_sum_mk (l : List (Op K (X → K))) (ns : List Bool) (h : ∀ x ∈ l, Inv x = true ∧ isSumOp x = false) :
+    Inv (Op.sum l ns) = true := by
+  simp only [Inv, List.all_map, List.all_eq_true, Function.comp, id, Bool.and_eq_true, Bool.not_eq_true']
+  exact h
+
+/-- **SumOperator.make preserves the shape invariant** -/
+theorem mkSumU_Inv (hre : ∀ c, isReal c = true → re c = c) (fuel : Nat) (ops : List (Op K (X → K))) (neg : List Bool)
+    (h : ∀ x ∈ ops, Inv x = true) : Inv (mkSumU S (fuel + 1) ops neg) = true := by
+  let P : Op K (X → K) → Prop := fun y => Inv y = true ∧ isSumOp y = false
+  have hP : Fresh P := ⟨fun _ _ _ => by simp [P, Inv, isSumOp], fun _ _ _ => by simp [P, Inv, isSumOp],
+    fun _ _ => by simp [P, Inv, isSumOp]⟩
+  have hflat : ∀ p ∈ sumFlatten ops neg, P p.1 := by
+    apply sumFlatten_members
+    intro x hx
+    exact ⟨fun hc => ⟨h x hx, hc⟩, fun l ns hl y hy => by
+      have := h x hx; rw [hl] at this; exact Inv_sum l ns this y hy⟩
+  have hres := sumSimplify_pres isReal re blocks leaf P hP fuel (mkSumU S fuel) ops neg
+    (fun p hp => ⟨hflat p hp, Inv_okS p.1 (hflat p hp).1⟩)
+  rw [mkSumU]
+  split
+  · rename_i o n heq
+    have ho := (hres (o, n) (by rw [heq]; simp)).1
+    cases n
+    · simpa using ho
+    · simp only [if_true]
+      unfold negU
+      have hF : FUEL = 63 + 1 := rfl
+      rw [hF]
+      apply mkChainU_Inv isReal re blocks leaf hre 63 _ (by simp)
+      intro x hx
+      simp only [List.mem_cons, List.not_mem_nil, or_false] at hx
+      rcases hx with rfl | rfl
+      · simp [Inv]
+      · exact ho
+  · rename_i L hL
+    apply Inv_sum_mk
+    intro x hx
+    obtain ⟨p, hp, rfl⟩ := List.mem_map.mp hx
+    exact hres p hp
+
+theorem flip_Inv (hre : ∀ c, isReal c = true → re c = c) (o : Op K (X → K)) (t : Nat) (ht : t < 4) (h : Inv o = true) :
+    Inv (OpAlgebra.flip S o t) = true := by
+  fun_induction OpAlgebra.flip S o t with
+  | case1 o t0 t nt h0 =>
+    simp only [Inv, Bool.and_eq_true] at h; exact h.1.2
+  | case2 o t0 t nt h0 =>
+    simp only [Inv, Bool.and_eq_true, decide_eq_true_eq, Bool.not_eq_true'] at h ⊢
+    refine ⟨⟨?_, h.1.2⟩, h.2⟩
+    show adapterFlip t0 t < 4
+    rw [adapterFlip_eval t0 h.1.1 t ht]; exact xor_lt4 t0 h.1.1 t ht
+  | case3 d c dt t => simp [Inv]
+  | case4 dm d t0 dt t =>
+    have ht0 : t0 < 4 := by simpa [Inv] using h
+    simp only [Inv, decide_eq_true_eq]
+    rw [diagFlip_eval t0 ht0 t ht]; exact xor_lt4 t0 ht0 t ht
+  | case5 ops t h0 => exact h
+  | case6 ops t h0 hrev ih =>
+    obtain ⟨hne, hm⟩ := Inv_chain ops h
+    have hF : FUEL = 63 + 1 := rfl
+    rw [hF]
+    apply mkChainU_Inv isReal re blocks leaf hre 63 _ (by simpa using hne)
+    intro y hy
+    simp only [List.mem_map, List.mem_reverse] at hy
+    obtain ⟨x, hx, rfl⟩ := hy
+    exact ih x hx ht (hm x hx).1
+  | case7 ops t h0 hrev ih =>
+    obtain ⟨hne, hm⟩ := Inv_chain ops h
+    have hF : FUEL = 63 + 1 := rfl
+    rw [hF]
+    apply mkChainU_Inv isReal re blocks leaf hre 63 _ (by simpa using hne)
+    intro y hy
+    simp only [List.mem_map] at hy
+    obtain ⟨x, hx, rfl⟩ := hy
+    exact ih x hx ht (hm x hx).1
+  | case8 o t _ _ _ _ h0 => exact h
+  | case9 o t h1 h2 h3 h4 h0 =>
+    simp only [Inv, Bool.and_eq_true, decide_eq_true_eq, Bool.not_eq_true']
+    refine ⟨⟨ht, h⟩, ?_⟩
+    cases o <;> simp_all [isChainOp]
+
+
+/-! ### Part 9 — `.adjoint`, SandwichOperator.make for every bun, and **`tree_sound`**: the statement of C01 for expression trees -/
+
+theorem matmul_Inv (hre : ∀ c, isReal c = true → re c = c) (a b r : Op K (X → K)) (h : matmul S a b = .ok r)
+    (ha : Inv a = true) (hb : Inv b = true) : Inv r = true := by
+  unfold matmul at h
+  split at h
+  · injection h with h; subst h; exact ha
+  · unfold mkChain at h
+    simp only [List.isEmpty_cons, Bool.false_eq_true, if_false, List.length_cons, List.length_nil] at h
+    split at h
+    · rename_i hl; simp at hl
+    · split at h
+      · injection h with h; subst h
+        have hF : FUEL = 63 + 1 := rfl
+        rw [hF]
+        apply mkChainU_Inv isReal re blocks leaf hre 63 _ (by simp)
+        intro x hx
+        simp only [List.mem_cons, List.not_mem_nil, or_false] at hx
+        rcases hx with rfl | rfl
+        · exact ha
+        · exact hb
+      · cases h
+
+theorem scale_Inv (hre : ∀ c, isReal c = true → re c = c) (o r : Op K (X → K)) (f : K) (h : scale S o f = .ok r)
+    (ho : Inv o = true) : Inv r = true := by
+  unfold scale at h
+  split at h
+  · injection h with h; subst h; exact ho
+  · unfold callOp at h
+    split at h
+    · injection h with h; subst h; exact ho
+    · exact matmul_Inv isReal re blocks leaf hre _ _ _ h (by simp [Inv]) ho
+
+theorem ssum_zip_map (f : Op K (X → K) → Op K (X → K)) (l : List (Op K (X → K))) (ns : List Bool) (s s' : Nat)
+    (h : ∀ y ∈ l, den S (f y) (1 <<< s) = den S y (1 <<< s')) :
+    ssum isReal re blocks leaf ((l.map f).zip ns) s = ssum isReal re blocks leaf (l.zip ns) s' := by
+  induction l generalizing ns with
+  | nil => simp [ssum_nil]
+  | cons y ys ih =>
+    cases ns with
+    | nil => simp [ssum_nil]
+    | cons n ns =>
+      simp only [List.map_cons, List.zip_cons_cons, ssum_cons]
+      rw [h y (by simp), ih ns (fun z hz => h z (by simp [hz]))]
+
+/-- **the `.adjoint` property** (SumOperator distributes it over its summands and re-simplifies; everything else flips):
+    mode `s` of `op.adjoint` is mode `s xor ADJOINT` of `op` — for a sum in the two modes a sum advertises -/
+theorem adjointOf_sound (hre : ∀ c, isReal c = true → re c = c) (x : Op K (X → K)) (hx : Inv x = true) (s : Nat) (hs : s < 4)
+    (hsum : isSumOp x = true → s < 2) :
+    den S (adjointOf S x) (1 <<< s) = den S x (1 <<< (s ^^^ 1)) ∧ Inv (adjointOf S x) = true := by
+  by_cases hc : isSumOp x = true
+  · obtain ⟨l, ns, rfl⟩ : ∃ l ns, x = Op.sum l ns := by cases x <;> simp [isSumOp] at hc; exact ⟨_, _, rfl⟩
+    have hs2 : s < 2 := hsum hc
+    have hm := Inv_sum l ns hx
+    have hmap : l.map (adjointOf S) = l.map (OpAlgebra.flip S · ADJOINT_BIT) :=
+      List.map_congr_left (fun y hy => adjointOf_nonsum isReal re blocks leaf y (hm y hy).2)
+    have hInvm : ∀ y ∈ l.map (OpAlgebra.flip S · ADJOINT_BIT), Inv y = true := by
+      intro y hy
+      obtain ⟨z, hz, rfl⟩ := List.mem_map.mp hy
+      exact flip_Inv isReal re blocks leaf hre z 1 (by decide) (hm z hz).1
+    have hF : FUEL = 63 + 1 := rfl
+    rw [adjointOf, hmap, hF]
+    refine ⟨?_, mkSumU_Inv isReal re blocks leaf hre 63 _ ns hInvm⟩
+    have hflatInv : ∀ p ∈ sumFlatten (l.map (OpAlgebra.flip S · ADJOINT_BIT)) ns, Inv p.1 = true ∧ isSumOp p.1 = false := by
+      apply sumFlatten_members (P := fun y => Inv y = true ∧ isSumOp y = false)
+      intro y hy
+      exact ⟨fun hns => ⟨hInvm y hy, hns⟩, fun l' ns' hl' z hz => by
+        have := hInvm y hy; rw [hl'] at this; exact Inv_sum l' ns' this z hz⟩
+    have hP : Fresh (fun y : Op K (X → K) => Inv y = true ∧ isSumOp y = false) :=
+      ⟨fun _ _ _ => by simp [Inv, isSumOp], fun _ _ _ => by simp [Inv, isSumOp], fun _ _ => by simp [Inv, isSumOp]⟩
+    have hres := sumSimplify_pres isReal re blocks leaf _ hP 63 (mkSumU S 63) (l.map (OpAlgebra.flip S · ADJOINT_BIT)) ns
+      (fun p hp => ⟨hflatInv p hp, Inv_okS p.1 (hflatInv p hp).1⟩)
+    rw [mkSumU_sound isReal re blocks leaf hre 63 _ ns s hs2 (fun p hp => Inv_okS p.1 (hflatInv p hp).1)
+      (fun o heq => Inv_opnd o (hres (o, true) (by rw [heq]; simp)).1),
+      den_sum_ssum]
+    apply ssum_zip_map
+    intro y hy
+    exact flip_sound isReal re blocks leaf hre y 1 (by decide) (Inv_goodF y (hm y hy).1) s hs
+  · have hc' : isSumOp x = false := by simpa using hc
+    rw [adjointOf_nonsum isReal re blocks leaf x hc']
+    exact ⟨flip_sound isReal re blocks leaf hre x 1 (by decide) (Inv_goodF x hx) s hs,
+      flip_Inv isReal re blocks leaf hre x 1 (by decide) hx⟩
+
+
+/-- SandwichOperator.make (second part) for any bun satisfying the shape invariant, sums included (then in the two modes a sum
+    advertises); the result satisfies the invariant again -/
+theorem sandwichCore_sound2 (hre : ∀ c, isReal c = true → re c = c) (bun cheese r : Op K (X → K))
+    (h : sandwichCore S bun cheese = .ok r) (hbI : Inv bun = true) (hcI : Inv cheese = true) :
+    Inv r = true ∧ ∀ s, s < 4 → (isSumOp bun = true → s < 2) →
+      den S r (1 <<< s) = mprod (revOf s) [den S bun (1 <<< (s ^^^ 1)), den S cheese (1 <<< s), den S bun (1 <<< s)] := by
+  have hbo := Inv_opnd bun hbI
+  have hco := Inv_opnd cheese hcI
+  unfold sandwichCore at h
+  split at h
+  · rename_i d c dt
+    have hk : (msem isReal re blocks leaf).keq ((msem isReal re blocks leaf).kabs2 c) (msem isReal re blocks leaf).kone =
+        decide (c * star c = 1) := rfl
+    rw [hk] at h
+    have hprod : ∀ s, s < 4 → mprod (revOf s) [den S (Op.scaling d c dt) (1 <<< (s ^^^ 1)), den S cheese (1 <<< s),
+        den S (Op.scaling d c dt) (1 <<< s)] = modeScalar (c * star c) s • den S cheese (1 <<< s) := by
+      intro s hs
+      rw [den_scaling isReal re blocks leaf d c dt _ (xor_lt4 s hs 1 (by decide)), den_scaling isReal re blocks leaf d c dt s hs,
+        modeScalar_xor1 c s hs, modeScalar_mul _ _ s hs]
+      simp only [mprod_cons, mprod_nil]
+      cases revOf s <;> simp [smul_smul, mul_comm]
+    by_cases hf : c * star c = 1
+    · simp only [hf, decide_true, if_true] at h
+      injection h with h; subst h
+      refine ⟨hcI, fun s hs _ => ?_⟩
+      rw [hprod s hs, hf, modeScalar_one s hs, one_smul]
+    · have : decide (c * star c = 1) = false := by simpa using hf
+      simp only [this, Bool.false_eq_true, if_false] at h
+      split at h
+      · rename_i op hop
+        injection h with h; subst h
+        refine ⟨by simpa [Inv] using scale_Inv isReal re blocks leaf hre cheese op _ hop hcI, fun s hs _ => ?_⟩
+        rw [den_sandwich, hprod s hs]
+        exact scale_sound isReal re blocks leaf hre cheese op _ hop hco s hs
+      · cases h
+  · split at h
+    · cases h
+    · rename_i t ht
+      split at h
+      · rename_i op hop
+        injection h with h; subst h
+        have hadjI : Inv (adjointOf S bun) = true := by
+          by_cases hc : isSumOp bun = true
+          · exact (adjointOf_sound isReal re blocks leaf hre bun hbI 0 (by decide) (fun _ => by decide)).2
+          · exact (adjointOf_sound isReal re blocks leaf hre bun hbI 0 (by decide) (fun h' => absurd h' hc)).2
+        have htI := matmul_Inv isReal re blocks leaf hre _ _ _ ht hadjI hcI
+        refine ⟨by simpa [Inv] using matmul_Inv isReal re blocks leaf hre _ _ _ hop htI hbI, fun s hs hsum => ?_⟩
+        rw [den_sandwich]
+        have hadj := (adjointOf_sound isReal re blocks leaf hre bun hbI s hs hsum).1
+        obtain ⟨ht1, ht2⟩ := matmul_sound isReal re blocks leaf hre _ _ _ ht (Inv_opnd _ hadjI) hco s hs
+        rw [(matmul_sound isReal re blocks leaf hre _ _ _ hop ht2 hbo s hs).1, ht1, hadj]
+        simp only [mprod_cons, mprod_nil]
+        cases revOf s <;> simp [Matrix.mul_assoc]
+      · cases h
+
+
+/-! #### scripts: the property's rule, the matrix expression, and `tree_sound` -/
+
+/-- the property's own rule for "mode `s` is required/advertised" on construction scripts (sums: forward and adjoint only) -/
+def ReqE : Expr K (X → K) → Nat → Bool
+  | .leaf _ c _ _, s => (c &&& (1 <<< s)) != 0
+  | .scaling _ _ _, _ => true
+  | .diag _ _ _, _ => true
+  | .null _ _, s => (s &&& 2) == 0
+  | .add a b, s => ((s &&& 2) == 0) && ReqE a s && ReqE b s
+  | .sub a b, s => ((s &&& 2) == 0) && ReqE a s && ReqE b s
+  | .matmul a b, s => ReqE a s && ReqE b s
+  | .adjoint a, s => ReqE a (s ^^^ 1)
+  | .inverse a, s => ReqE a (s ^^^ 2)
+  | .neg a, s => ReqE a s
+  | .scale a _, s => ReqE a s
+  | .sandwich bun ch _, s => ReqE bun (s ^^^ 1) && ReqE ch s && ReqE bun s
+  | .sandwichNone bun _, s => ReqE bun (s ^^^ 1) && ReqE bun s
+  | _, _ => false
+
+theorem sumRooted_lt (e : Expr K (X → K)) (h : sumRooted e = true) (s : Nat) (hs : s < 4) (hr : ReqE e s = true) : s < 2 := by
+  fun_induction sumRooted e generalizing s with
+  | case1 a b =>
+    simp only [ReqE, Bool.and_eq_true, beq_iff_eq] at hr
+    have h2 : s &&& 2 = 0 := hr.1.1
+    clear hr
+    interval_cases s <;> simp_all
+  | case2 a b =>
+    simp only [ReqE, Bool.and_eq_true, beq_iff_eq] at hr
+    have h2 : s &&& 2 = 0 := hr.1.1
+    clear hr
+    interval_cases s <;> simp_all
+  | case3 a ih =>
+    have := ih h (s ^^^ 1) (xor_lt4 s hs 1 (by decide)) (by simpa [ReqE] using hr)
+    clear hr ih h
+    interval_cases s <;> simp_all
+  | case4 e h1 h2 h3 => simp at h
+
+/-- the matrix expression of a script, mode by mode (`leaf id m`: the given dense action of library leaf `id` in mode `m`) -/
+noncomputable def spec : Expr K (X → K) → Nat → Matrix X X K
+  | .leaf id _ _ _, s => leaf id (1 <<< s)
+  | .scaling _ c _, s => modeScalar c s • (1 : Matrix X X K)
+  | .diag _ d _, s => Matrix.diagonal (modeDiag d s)
+  | .null _ _, _ => 0
+  | .add a b, s => spec a s + spec b s
+  | .sub a b, s => spec a s + - spec b s
+  | .matmul a b, s => mprod (revOf s) [spec a s, spec b s]
+  | .adjoint a, s => spec a (s ^^^ 1)
+  | .inverse a, s => spec a (s ^^^ 2)
+  | .neg a, s => modeScalar (-1 : K) s • spec a s
+  | .scale a c, s => modeScalar c s • spec a s
+  | .sandwich bun ch _, s => mprod (revOf s) [spec bun (s ^^^ 1), spec ch s, spec bun s]
+  | .sandwichNone bun _, s => mprod (revOf s) [spec bun (s ^^^ 1), 1, spec bun s]
+  | _, _ => 0
+
+theorem mkSum_pair (hre : ∀ c, isReal c = true → re c = c) (x y o : Op K (X → K)) (n : Bool)
+    (h : mkSum S [x, y] [false, n] = .ok o) (hx : Inv x = true) (hy : Inv y = true) :
+    Inv o = true ∧ ∀ s, s < 2 →
+      den S o (1 <<< s) = den S x (1 <<< s) + (if n then - den S y (1 <<< s) else den S y (1 <<< s)) := by
+  have ho : o = mkSumU S FUEL [x, y] [false, n] := by
+    unfold mkSum at h
+    simp only [List.isEmpty_cons, Bool.false_eq_true, if_false, List.length_cons, List.length_nil, bne_self_eq_false,
+      List.head?_cons] at h
+    split at h
+    · injection h with h; exact h.symm
+    · cases h
+  subst ho
+  have hF : FUEL = 63 + 1 := rfl
+  have hall : ∀ z ∈ [x, y], Inv z = true := by
+    intro z hz; simp only [List.mem_cons, List.not_mem_nil, or_false] at hz
+    rcases hz with rfl | rfl
+    · exact hx
+    · exact hy
+  rw [hF]
+  refine ⟨mkSumU_Inv isReal re blocks leaf hre 63 _ _ hall, fun s hs => ?_⟩
+  have hflatInv : ∀ p ∈ sumFlatten [x, y] [false, n], Inv p.1 = true ∧ isSumOp p.1 = false := by
+    apply sumFlatten_members (P := fun y => Inv y = true ∧ isSumOp y = false)
+    intro z hz
+    exact ⟨fun hns => ⟨hall z hz, hns⟩, fun l' ns' hl' w hw => by
+      have := hall z hz; rw [hl'] at this; exact Inv_sum l' ns' this w hw⟩
+  have hP : Fresh (fun y : Op K (X → K) => Inv y = true ∧ isSumOp y = false) :=
+    ⟨fun _ _ _ => by simp [Inv, isSumOp], fun _ _ _ => by simp [Inv, isSumOp], fun _ _ => by simp [Inv, isSumOp]⟩
+  have hres := sumSimplify_pres isReal re blocks leaf _ hP 63 (mkSumU S 63) [x, y] [false, n]
+    (fun p hp => ⟨hflatInv p hp, Inv_okS p.1 (hflatInv p hp).1⟩)
+  rw [mkSumU_sound isReal re blocks leaf hre 63 _ _ s hs (fun p hp => Inv_okS p.1 (hflatInv p hp).1)
+    (fun o' heq => Inv_opnd o' (hres (o', true) (by rw [heq]; simp)).1)]
+  simp [ssum_cons, ssum_nil]
+
+
+/-- **C01 for expression trees** (`tree_sound`): every operator that the constructors build from a script of library leaves with
+    `+ - @ .adjoint .inverse -x x.scale(c) SandwichOperator.make` (scripts covered by `treeOK`) satisfies the shape invariant, and in
+    every mode the script's constituents provide (`ReqE`: the property's rule) it acts exactly as the matrix expression `spec` -/
+theorem tree_sound (hre : ∀ c, isReal c = true → re c = c) (e : Expr K (X → K)) :
+    ∀ o, build S e = .ok o → treeOK S e = true →
+      Inv o = true ∧ ∀ s, s < 4 → ReqE e s = true → den S o (1 <<< s) = spec leaf e s := by
+  induction e using treeOK.induct with
+  | case1 id cap dom tgt =>
+    intro o hb _
+    rw [build] at hb; injection hb with hb; subst hb
+    exact ⟨by simp [Inv], fun s _ _ => by simp [den, msem, spec]⟩
+  | case2 dom c dt =>
+    intro o hb _
+    rw [build] at hb; injection hb with hb; subst hb
+    exact ⟨by simp [Inv], fun s hs _ => by rw [den_scaling isReal re blocks leaf dom c dt s hs]; simp [spec]⟩
+  | case3 dom d dt =>
+    intro o hb _
+    rw [build] at hb; injection hb with hb; subst hb
+    exact ⟨by simp [Inv], fun s hs _ => by
+      rw [den_diag isReal re blocks leaf dom d 0 dt s (by decide) hs]; simp [spec]⟩
+  | case4 dom tgt =>
+    intro o hb _
+    rw [build] at hb; injection hb with hb; subst hb
+    exact ⟨by simp [Inv], fun s _ _ => by rw [den_null]; simp [spec]⟩
+  | case5 a b iha ihb =>
+    intro o hb hok
+    simp only [treeOK, Bool.and_eq_true] at hok
+    rw [build] at hb
+    split at hb
+    · rename_i x y hx hy
+      obtain ⟨ix, dx⟩ := iha x hx hok.1
+      obtain ⟨iy, dy⟩ := ihb y hy hok.2
+      obtain ⟨io, dd⟩ := mkSum_pair isReal re blocks leaf hre x y o false hb ix iy
+      refine ⟨io, fun s hs hr => ?_⟩
+      simp only [ReqE, Bool.and_eq_true, beq_iff_eq] at hr
+      have hs2 : s < 2 := by have h2 := hr.1.1; clear hr dd dx dy; interval_cases s <;> simp_all
+      rw [dd s hs2, dx s hs hr.1.2, dy s hs hr.2]
+      simp [spec]
+    · cases hb
+    · cases hb
+  | case6 a b iha ihb =>
+    intro o hb hok
+    simp only [treeOK, Bool.and_eq_true] at hok
+    rw [build] at hb
+    split at hb
+    · rename_i x y hx hy
+      obtain ⟨ix, dx⟩ := iha x hx hok.1
+      obtain ⟨iy, dy⟩ := ihb y hy hok.2
+      obtain ⟨io, dd⟩ := mkSum_pair isReal re blocks leaf hre x y o true hb ix iy
+      refine ⟨io, fun s hs hr => ?_⟩
+      simp only [ReqE, Bool.and_eq_true, beq_iff_eq] at hr
+      have hs2 : s < 2 := by have h2 := hr.1.1; clear hr dd dx dy; interval_cases s <;> simp_all
+      rw [dd s hs2, dx s hs hr.1.2, dy s hs hr.2]
+      simp [spec]
+    · cases hb
+    · cases hb
+  | case7 a b iha ihb =>
+    intro o hb hok
+    simp only [treeOK, Bool.and_eq_true] at hok
+    rw [build] at hb
+    split at hb
+    · rename_i x y hx hy
+      obtain ⟨ix, dx⟩ := iha x hx hok.1
+      obtain ⟨iy, dy⟩ := ihb y hy hok.2
+      refine ⟨matmul_Inv isReal re blocks leaf hre x y o hb ix iy, fun s hs hr => ?_⟩
+      simp only [ReqE, Bool.and_eq_true] at hr
+      rw [(matmul_sound isReal re blocks leaf hre x y o hb (Inv_opnd x ix) (Inv_opnd y iy) s hs).1, dx s hs hr.1, dy s hs hr.2]
+      simp [spec]
+    · cases hb
+    · cases hb
+  | case8 a iha =>
+    intro o hb hok
+    simp only [treeOK, Bool.and_eq_true] at hok
+    rw [build] at hb
+    split at hb
+    · rename_i x hx
+      injection hb with hb; subst hb
+      obtain ⟨ix, dx⟩ := iha x hx hok.1
+      have hcond := hok.2
+      rw [hx] at hcond
+      simp only [Bool.or_eq_true, Bool.not_eq_true'] at hcond
+      refine ⟨(adjointOf_sound isReal re blocks leaf hre x ix 0 (by decide) (fun _ => by decide)).2, fun s hs hr => ?_⟩
+      simp only [ReqE] at hr
+      have hx1 : s ^^^ 1 < 4 := xor_lt4 s hs 1 (by decide)
+      have hsum : isSumOp x = true → s < 2 := by
+        intro hsx
+        rcases hcond with h | h
+        · rw [hsx] at h; cases h
+        · have := sumRooted_lt a h (s ^^^ 1) hx1 hr
+          clear hr dx; interval_cases s <;> simp_all
+      rw [(adjointOf_sound isReal re blocks leaf hre x ix s hs hsum).1, dx (s ^^^ 1) hx1 hr]
+      simp [spec]
+    · cases hb
+  | case9 a iha =>
+    intro o hb hok
+    simp only [treeOK] at hok
+    rw [build] at hb
+    split at hb
+    · rename_i x hx
+      split at hb
+      · cases hb
+      · injection hb with hb; subst hb
+        obtain ⟨ix, dx⟩ := iha x hx hok
+        refine ⟨flip_Inv isReal re blocks leaf hre x 2 (by decide) ix, fun s hs hr => ?_⟩
+        simp only [ReqE] at hr
+        have hx2 : s ^^^ 2 < 4 := xor_lt4 s hs 2 (by decide)
+        have := flip_sound isReal re blocks leaf hre x 2 (by decide) (Inv_goodF x ix) s hs
+        unfold inverseOf
+        rw [show INVERSE_BIT = 2 from rfl, this, dx (s ^^^ 2) hx2 hr]
+        simp [spec]
+    · cases hb
+  | case10 a iha =>
+    intro o hb hok
+    simp only [treeOK] at hok
+    rw [build] at hb
+    split at hb
+    · rename_i x hx
+      obtain ⟨ix, dx⟩ := iha x hx hok
+      refine ⟨scale_Inv isReal re blocks leaf hre x o _ hb ix, fun s hs hr => ?_⟩
+      simp only [ReqE] at hr
+      rw [scale_sound isReal re blocks leaf hre x o _ hb (Inv_opnd x ix) s hs, dx s hs hr]
+      rfl
+    · cases hb
+  | case11 a c iha =>
+    intro o hb hok
+    simp only [treeOK] at hok
+    rw [build] at hb
+    split at hb
+    · rename_i x hx
+      obtain ⟨ix, dx⟩ := iha x hx hok
+      refine ⟨scale_Inv isReal re blocks leaf hre x o _ hb ix, fun s hs hr => ?_⟩
+      simp only [ReqE] at hr
+      rw [scale_sound isReal re blocks leaf hre x o _ hb (Inv_opnd x ix) s hs, dx s hs hr]
+      simp [spec]
+    · cases hb
+  | case12 bun ch dt ihb ihc =>
+    intro o hb hok
+    simp only [treeOK, Bool.and_eq_true] at hok
+    rw [build] at hb
+    split at hb
+    · rename_i xb xc hxb hxc
+      obtain ⟨ib, db⟩ := ihb xb hxb hok.1.1.1
+      obtain ⟨ic, dc⟩ := ihc xc hxc hok.1.1.2
+      have hcb := hok.1.2
+      have hcc := hok.2
+      rw [hxb] at hcb
+      rw [hxc] at hcc
+      simp only [Bool.or_eq_true, Bool.not_eq_true'] at hcb hcc
+      have hcore : sandwichCore S xb xc = .ok o := by
+        unfold mkSandwich sandwichArgs at hb
+        cases xc <;> first | (simp [isSandwichOp] at hcc; done) | (simpa using hb)
+      obtain ⟨io, dd⟩ := sandwichCore_sound2 isReal re blocks leaf hre xb xc o hcore ib ic
+      refine ⟨io, fun s hs hr => ?_⟩
+      simp only [ReqE, Bool.and_eq_true] at hr
+      have hx1 : s ^^^ 1 < 4 := xor_lt4 s hs 1 (by decide)
+      have hsum : isSumOp xb = true → s < 2 := by
+        intro hsx
+        rcases hcb with h | h
+        · rw [hsx] at h; cases h
+        · exact sumRooted_lt bun h s hs hr.2
+      rw [dd s hs hsum, db (s ^^^ 1) hx1 hr.1.1, dc s hs hr.1.2, db s hs hr.2]
+      simp [spec]
+    · cases hb
+    · cases hb
+  | case13 bun dt ihb =>
+    intro o hb hok
+    simp only [treeOK, Bool.and_eq_true] at hok
+    rw [build] at hb
+    split at hb
+    · rename_i xb hxb
+      obtain ⟨ib, db⟩ := ihb xb hxb hok.1
+      have hcb := hok.2
+      rw [hxb] at hcb
+      simp only [Bool.or_eq_true, Bool.not_eq_true'] at hcb
+      have hcore : sandwichCore S xb (Op.scaling (tgt xb) (msem isReal re blocks leaf).kone dt) = .ok o := by
+        unfold mkSandwich sandwichArgs at hb
+        simpa using hb
+      obtain ⟨io, dd⟩ := sandwichCore_sound2 isReal re blocks leaf hre xb _ o hcore ib (by simp [Inv])
+      refine ⟨io, fun s hs hr => ?_⟩
+      simp only [ReqE, Bool.and_eq_true] at hr
+      have hx1 : s ^^^ 1 < 4 := xor_lt4 s hs 1 (by decide)
+      have hsum : isSumOp xb = true → s < 2 := by
+        intro hsx
+        rcases hcb with h | h
+        · rw [hsx] at h; cases h
+        · exact sumRooted_lt bun h s hs hr.2
+      have hone : den S (Op.scaling (tgt xb) (msem isReal re blocks leaf).kone dt : Op K (X → K)) (1 <<< s) = 1 :=
+        isIdentity_den isReal re blocks leaf _ (by simp [isIdentity, msem]) _
+      rw [dd s hs hsum, db (s ^^^ 1) hx1 hr.1, hone, db s hs hr.2]
+      simp [spec]
+    · cases hb
+  | case14 t h1 h2 h3 h4 h5 h6 h7 h8 h9 h10 h11 h12 h13 =>
+    intro o _ hok
+    cases t with
+    | leaf a b c d => exact (h1 _ _ _ _ rfl).elim
+    | scaling a b c => exact (h2 _ _ _ rfl).elim
+    | diag a b c => exact (h3 _ _ _ rfl).elim
+    | null a b => exact (h4 _ _ rfl).elim
+    | add a b => exact (h5 _ _ rfl).elim
+    | sub a b => exact (h6 _ _ rfl).elim
+    | matmul a b => exact (h7 _ _ rfl).elim
+    | adjoint a => exact (h8 _ rfl).elim
+    | inverse a => exact (h9 _ rfl).elim
+    | neg a => exact (h10 _ rfl).elim
+    | scale a c => exact (h11 _ _ rfl).elim
+    | sandwich a b c => exact (h12 _ _ _ rfl).elim
+    | sandwichNone a b => exact (h13 _ _ rfl).elim
+    | invEnabler a => simp [treeOK] at hok
+    | block a b c => simp [treeOK] at hok
+    | missing => simp [treeOK] at hok
+
+/-- non-vacuity of `tree_sound`: `c·(L₀⁻¹ @ (D − L₁))` is a covered script, and it requires TIMES when `L₀` provides it -/
+example (d : X → K) (c : K) :
+    let e : Expr K (X → K) := Expr.scale (Expr.matmul (Expr.inverse (Expr.leaf 0 15 0 0))
+      (Expr.sub (Expr.diag 0 d 0) (Expr.leaf 1 3 0 0))) c
+    treeOK S e = true ∧ ReqE e 0 = true ∧ ReqE e 2 = false := by
+  simp [treeOK, ReqE]
+
 /-- non-vacuity of the hypotheses of `mkChainU_sound`: a diagonal with pending adjoint, a nested chain with a scaling, a leaf -/
 example : (∀ o ∈ chainFlatten [Op.diag 0 (fun _ : Fin 2 => (2 : ℚ)) 1 0, Op.chain [Op.scaling 0 (3 : ℚ) 0, Op.leaf 7 15 0 0]],
     okC o = true) ∧
     (∀ o ∈ [Op.diag 0 (fun _ : Fin 2 => (2 : ℚ)) 1 0, Op.chain [Op.scaling 0 (3 : ℚ) 0, Op.leaf 7 15 0 0]],
       ∀ l, o = Op.chain l → l ≠ []) := by
   constructor
-  · simp [chainFlatten, okC, diagOK, isBlock]
+  · simp [chainFlatten, okC, diagOK, isBlock, isChainOp]
   · intro o ho l hl
     simp only [List.mem_cons, List.not_mem_nil, or_false] at ho
     rcases ho with rfl | rfl
     · cases hl
     · injection hl with hl; subst hl; simp
+
+/-! ### Part 10 — block-diagonal operands (`_combine_sum`, `_combine_chain`) -/
+
+/-- sign of a summand -/
+def sg {R : Type} [Neg R] (n : Bool) (x : R) : R := if n then -x else x
+
+/-- the block-diagonal embedding is additive and multiplicative entry by entry.  Every coordinate projection `l ↦ l[i]` satisfies
+    this (`blockHom_proj`), and a block-diagonal operator is determined by its projections, so the theorems below say: every block
+    of the combined operator is the sum / product of the corresponding blocks. -/
+structure BlockHom : Prop where
+  add : ∀ dm (a b : List (Matrix X X K)) (na nb : Bool), a.length = b.length →
+    blocks dm (List.zipWith (fun x y => sg na x + sg nb y) a b) = sg na (blocks dm a) + sg nb (blocks dm b)
+  mul : ∀ dm (a b : List (Matrix X X K)), a.length = b.length →
+    blocks dm (List.zipWith (fun x y => x * y) a b) = blocks dm a * blocks dm b
+
+/-- non-vacuity: the projection onto block `i` (zero outside the key list) is a `BlockHom` -/
+theorem blockHom_proj (i : Nat) : BlockHom (X := X) (K := K) (fun _ l => l.getD i 0) := by
+  constructor
+  · intro _ a b na nb h
+    simp only [List.getD_eq_getElem?_getD, List.getElem?_zipWith]
+    by_cases hi : i < a.length
+    · have hi' : i < b.length := h ▸ hi
+      simp [List.getElem?_eq_getElem hi, List.getElem?_eq_getElem hi']
+    · have hi' : ¬ i < b.length := h ▸ hi
+      simp [List.getElem?_eq_none (Nat.le_of_not_lt hi), List.getElem?_eq_none (Nat.le_of_not_lt hi')]
+      cases na <;> cases nb <;> simp [sg]
+  · intro _ a b h
+    simp only [List.getD_eq_getElem?_getD, List.getElem?_zipWith]
+    by_cases hi : i < a.length
+    · have hi' : i < b.length := h ▸ hi
+      simp [List.getElem?_eq_getElem hi, List.getElem?_eq_getElem hi']
+    · have hi' : ¬ i < b.length := h ▸ hi
+      simp [List.getElem?_eq_none (Nat.le_of_not_lt hi), List.getElem?_eq_none (Nat.le_of_not_lt hi')]
+
+theorem den_blockdiag (dm : Nat) (ents : List (Op K (X → K))) (m : Nat) :
+    den S (Op.blockdiag dm ents) m = blocks dm (ents.map (den S · m)) := by
+  rw [den]; rfl
+
+/-- the identity entry that `_combine_sum` substitutes for a missing key acts as the identity in every mode -/
+theorem den_unitEntry (v : Op K (X → K)) (s : Nat) (hs : s < 4) :
+    den S (unitEntry S v) (1 <<< s) = den S v (1 <<< s) := by
+  cases v <;> try rfl
+  rename_i d
+  rw [den_idEntry, unitEntry]
+  have : (S).kone = (1 : K) := rfl
+  rw [this, den_scaling isReal re blocks leaf d 1 0 s hs]
+  have : modeScalar (1 : K) s = 1 := by
+    interval_cases s <;> simp [modeScalar]
+  rw [this, one_smul]
+
+/-- **`BlockDiagonalOperator._combine_sum` (repaired).**  If the entry-wise `SumOperator.make` is sound on the (unit-completed)
+    entry pairs, the combined block operator is the signed sum of the two block operators in mode `s`. -/
+theorem combineSum_sound (hB : BlockHom blocks) (mk : List (Op K (X → K)) → List Bool → Op K (X → K))
+    (dm : Nat) (e1 e2 : List (Op K (X → K))) (n1 n2 : Bool) (s : Nat) (hs : s < 4) (hlen : e1.length = e2.length)
+    (hmk : ∀ p ∈ e1.zip e2, den S (mk [unitEntry S p.1, unitEntry S p.2] [n1, n2]) (1 <<< s) =
+      sg n1 (den S (unitEntry S p.1) (1 <<< s)) + sg n2 (den S (unitEntry S p.2) (1 <<< s))) :
+    den S (combineSum S mk dm e1 e2 n1 n2) (1 <<< s) =
+      sg n1 (den S (Op.blockdiag dm e1) (1 <<< s)) + sg n2 (den S (Op.blockdiag dm e2) (1 <<< s)) := by
+  rw [combineSum, den_blockdiag, den_blockdiag, den_blockdiag, ← hB.add dm _ _ n1 n2 (by simpa using hlen)]
+  congr 1
+  rw [List.map_map, List.zipWith_map, ← List.map_uncurry_zip_eq_zipWith]
+  apply List.map_congr_left
+  intro p hp
+  simp only [Function.comp, Function.uncurry]
+  rw [hmk p hp, den_unitEntry isReal re blocks leaf p.1 s hs, den_unitEntry isReal re blocks leaf p.2 s hs]
+
+/-- two-operand `SumOperator.make` on invariant operands, any signs, any fuel -/
+theorem mkSumU_pair_sound (hre : ∀ c, isReal c = true → re c = c) (fuel : Nat) (x y : Op K (X → K)) (n1 n2 : Bool)
+    (hx : Inv x = true) (hy : Inv y = true) :
+    Inv (mkSumU S (fuel + 1) [x, y] [n1, n2]) = true ∧ ∀ s, s < 2 →
+      den S (mkSumU S (fuel + 1) [x, y] [n1, n2]) (1 <<< s) = sg n1 (den S x (1 <<< s)) + sg n2 (den S y (1 <<< s)) := by
+  have hall : ∀ z ∈ [x, y], Inv z = true := by
+    intro z hz; simp only [List.mem_cons, List.not_mem_nil, or_false] at hz
+    rcases hz with rfl | rfl
+    · exact hx
+    · exact hy
+  refine ⟨mkSumU_Inv isReal re blocks leaf hre fuel _ _ hall, fun s hs => ?_⟩
+  have hflatInv : ∀ p ∈ sumFlatten [x, y] [n1, n2], Inv p.1 = true ∧ isSumOp p.1 = false := by
+    apply sumFlatten_members (P := fun y => Inv y = true ∧ isSumOp y = false)
+    intro z hz
+    exact ⟨fun hns => ⟨hall z hz, hns⟩, fun l' ns' hl' w hw => by
+      have := hall z hz; rw [hl'] at this; exact Inv_sum l' ns' this w hw⟩
+  have hP : Fresh (fun y : Op K (X → K) => Inv y = true ∧ isSumOp y = false) :=
+    ⟨fun _ _ _ => by simp [Inv, isSumOp], fun _ _ _ => by simp [Inv, isSumOp], fun _ _ => by simp [Inv, isSumOp]⟩
+  have hres := sumSimplify_pres isReal re blocks leaf _ hP fuel (mkSumU S fuel) [x, y] [n1, n2]
+    (fun p hp => ⟨hflatInv p hp, Inv_okS p.1 (hflatInv p hp).1⟩)
+  rw [mkSumU_sound isReal re blocks leaf hre fuel _ _ s hs (fun p hp => Inv_okS p.1 (hflatInv p hp).1)
+    (fun o' heq => Inv_opnd o' (hres (o', true) (by rw [heq]; simp)).1)]
+  cases n1 <;> cases n2 <;> simp [ssum_cons, ssum_nil, sg]
+
+/-- **a key missing in both operands**: the combined entry is `SumOperator.make` of two identity scalings; its action is
+    `±1 ± 1` — twice the identity for `P1 + P2`, zero for `P1 − P2`, never "still missing" (= the identity). -/
+theorem combineSum_missing_missing (hre : ∀ c, isReal c = true → re c = c) (fuel d1 d2 : Nat) (n1 n2 : Bool) (s : Nat) (hs : s < 2) :
+    den S (mkSumU S (fuel + 1) [unitEntry S (Op.idEntry d1), unitEntry S (Op.idEntry d2)] [n1, n2]) (1 <<< s) =
+      sg n1 (1 : Matrix X X K) + sg n2 1 := by
+  have h := (mkSumU_pair_sound isReal re blocks leaf hre fuel (unitEntry S (Op.idEntry d1)) (unitEntry S (Op.idEntry d2)) n1 n2
+    (by simp [unitEntry, Inv]) (by simp [unitEntry, Inv])).2 s hs
+  rw [h, den_unitEntry isReal re blocks leaf _ s (by omega), den_unitEntry isReal re blocks leaf _ s (by omega), den_idEntry,
+    den_idEntry]
+
+/-- an entry of a block-diagonal operand: a missing key or an invariant (block-free) operator -/
+def EInv (v : Op K (X → K)) : Bool := match v with | .idEntry _ => true | v => Inv v
+
+theorem Inv_unitEntry (v : Op K (X → K)) (h : EInv v = true) : Inv (unitEntry S v) = true := by
+  cases v <;> simp_all [EInv, unitEntry, Inv]
+
+/-- **`_combine_sum` with the verified `SumOperator.make`**: for block operands whose entries are missing keys or invariant
+    operators, over the same key list, the combined operator is the signed sum in both sum modes, and its entries are invariant
+    operators again (so that the step can be iterated). -/
+theorem combineSum_mkSumU_sound (hB : BlockHom blocks) (hre : ∀ c, isReal c = true → re c = c) (fuel : Nat)
+    (dm : Nat) (e1 e2 : List (Op K (X → K))) (n1 n2 : Bool) (hlen : e1.length = e2.length)
+    (h1 : ∀ v ∈ e1, EInv v = true) (h2 : ∀ v ∈ e2, EInv v = true) :
+    (∃ e, combineSum S (mkSumU S (fuel + 1)) dm e1 e2 n1 n2 = Op.blockdiag dm e ∧ e.length = e1.length ∧ ∀ v ∈ e, Inv v = true) ∧
+    ∀ s, s < 2 → den S (combineSum S (mkSumU S (fuel + 1)) dm e1 e2 n1 n2) (1 <<< s) =
+      sg n1 (den S (Op.blockdiag dm e1) (1 <<< s)) + sg n2 (den S (Op.blockdiag dm e2) (1 <<< s)) := by
+  have hp : ∀ p ∈ e1.zip e2, Inv (unitEntry S p.1) = true ∧ Inv (unitEntry S p.2) = true := fun p hp =>
+    ⟨Inv_unitEntry isReal re blocks leaf _ (h1 _ (List.of_mem_zip hp).1), Inv_unitEntry isReal re blocks leaf _ (h2 _ (List.of_mem_zip hp).2)⟩
+  refine ⟨⟨_, rfl, by simp [hlen], ?_⟩, fun s hs => ?_⟩
+  · intro v hv
+    simp only [List.mem_map] at hv
+    obtain ⟨p, hpm, rfl⟩ := hv
+    exact (mkSumU_pair_sound isReal re blocks leaf hre fuel _ _ n1 n2 (hp p hpm).1 (hp p hpm).2).1
+  · exact combineSum_sound isReal re blocks leaf hB _ dm e1 e2 n1 n2 s (by omega) hlen (fun p hpm =>
+      (mkSumU_pair_sound isReal re blocks leaf hre fuel _ _ n1 n2 (hp p hpm).1 (hp p hpm).2).2 s hs)
+
+/-- well-formed block operand over a key list of length `L`: entries are missing keys or invariant operators -/
+def BlkOK (dm L : Nat) (o : Op K (X → K)) : Prop :=
+  ∀ dm' e, o = Op.blockdiag dm' e → dm' = dm ∧ e.length = L ∧ ∀ v ∈ e, EInv v = true
+
+theorem sumMergeBlocksInner_sound (hB : BlockHom blocks) (hre : ∀ c, isReal c = true → re c = c) (fuel f dm0 L : Nat)
+    (mk : List (Op K (X → K)) → List Bool → Op K (X → K)) (hmk : mk = mkSumU S (f + 1))
+    (acc : Op K (X → K)) (accneg : Bool) (l : List (Op K (X → K) × Bool))
+    (hacc : BlkOK dm0 L acc) (hl : ∀ p ∈ l, BlkOK dm0 L p.1) :
+    BlkOK dm0 L (sumMergeBlocksInner S fuel mk acc accneg l).1 ∧
+    (∀ p ∈ (sumMergeBlocksInner S fuel mk acc accneg l).2.2, p ∈ l) ∧
+    ∀ s, s < 2 →
+      sg (sumMergeBlocksInner S fuel mk acc accneg l).2.1 (den S (sumMergeBlocksInner S fuel mk acc accneg l).1 (1 <<< s)) +
+          ssum isReal re blocks leaf (sumMergeBlocksInner S fuel mk acc accneg l).2.2 s =
+        sg accneg (den S acc (1 <<< s)) + ssum isReal re blocks leaf l s := by
+  induction l generalizing acc accneg with
+  | nil => simp [sumMergeBlocksInner, hacc, ssum_nil]
+  | cons hd tl ih =>
+    obtain ⟨p, pn⟩ := hd
+    unfold sumMergeBlocksInner
+    split
+    · rename_i dm e1 dm2 e2
+      obtain ⟨hd1, hL1, hE1⟩ := hacc dm e1 rfl
+      obtain ⟨hd2, hL2, hE2⟩ := hl (Op.blockdiag dm2 e2, pn) (by simp) dm2 e2 rfl
+      subst hmk hd1 hd2
+      obtain ⟨⟨e, he, helen, heInv⟩, hden⟩ := combineSum_mkSumU_sound isReal re blocks leaf hB hre f dm2 e1 e2 accneg pn
+        (hL1.trans hL2.symm) hE1 hE2
+      have hacc' : BlkOK dm2 L (combineSum S (mkSumU S (f + 1)) dm2 e1 e2 accneg pn) := by
+        intro dm' e' h'
+        rw [he] at h'
+        injection h' with hdm h'
+        subst h'
+        refine ⟨hdm.symm, helen.trans hL1, fun v hv => ?_⟩
+        have := heInv v hv
+        cases v <;> simp_all [EInv]
+      obtain ⟨a1, a2, a3⟩ := ih (combineSum S (mkSumU S (f + 1)) dm2 e1 e2 accneg pn) false hacc'
+        (fun q hq => hl q (by simp [hq]))
+      refine ⟨a1, fun q hq => by simp [a2 q hq], fun s hs => ?_⟩
+      rw [a3 s hs, hden s hs, ssum_cons]
+      simp only [sg, Bool.false_eq_true, if_false]
+      abel
+    · obtain ⟨a1, a2, a3⟩ := ih acc accneg hacc (fun q hq => hl q (by simp [hq]))
+      refine ⟨a1, fun q hq => ?_, fun s hs => ?_⟩
+      · simp only [List.mem_cons] at hq ⊢
+        rcases hq with rfl | hq
+        · exact Or.inl rfl
+        · exact Or.inr (a2 q hq)
+      · simp only [ssum_cons]
+        have := a3 s hs
+        rw [add_left_comm, this, add_left_comm]
+
+/-- **the block-merging pass of `SumOperator.simplify`** (`_combine_sum` applied to every pair of block-diagonal operands):
+    the signed sum is unchanged in both sum modes -/
+theorem sumMergeBlocks_sound (hB : BlockHom blocks) (hre : ∀ c, isReal c = true → re c = c) (fuel f dm0 L : Nat)
+    (mk : List (Op K (X → K)) → List Bool → Op K (X → K)) (hmk : mk = mkSumU S (f + 1))
+    (l : List (Op K (X → K) × Bool)) (hl : ∀ p ∈ l, BlkOK dm0 L p.1) (s : Nat) (hs : s < 2) :
+    ssum isReal re blocks leaf (sumMergeBlocks S fuel mk l) s = ssum isReal re blocks leaf l s := by
+  fun_induction sumMergeBlocks S fuel mk l with
+  | case1 => rfl
+  | case2 o n rest ho r ih =>
+    obtain ⟨a1, a2, a3⟩ := sumMergeBlocksInner_sound isReal re blocks leaf hB hre fuel f dm0 L mk hmk o n rest
+      (hl (o, n) (by simp)) (fun q hq => hl q (by simp [hq]))
+    rw [ssum_cons, ih (fun q hq => hl q (by simp [a2 q hq])), ssum_cons]
+    have := a3 s hs
+    simp only [sg] at this
+    exact this
+  | case3 o n rest ho ih =>
+    rw [ssum_cons, ssum_cons, ih (fun q hq => hl q (by simp [hq]))]
+
+theorem Inv_EInv (v : Op K (X → K)) (h : Inv v = true) : EInv v = true := by
+  cases v <;> simp_all [EInv, Inv]
+
+/-- one entry of `_combine_chain` (repaired) with the verified `ChainOperator.make`: a missing key is the identity -/
+theorem combineChainEntry_sound (hre : ∀ c, isReal c = true → re c = c) (f : Nat) (v1 v2 : Op K (X → K))
+    (h1 : EInv v1 = true) (h2 : EInv v2 = true) (s : Nat) (hs : s < 4) :
+    EInv (combineChainEntry S (mkChainU S (f + 1)) v1 v2) = true ∧
+    den S (combineChainEntry S (mkChainU S (f + 1)) v1 v2) (1 <<< s) =
+      mprod (revOf s) [den S v1 (1 <<< s), den S v2 (1 <<< s)] := by
+  unfold combineChainEntry
+  split
+  · refine ⟨h2, ?_⟩
+    rw [den_idEntry, mprod_cons, mprod_singleton]; cases revOf s <;> simp
+  · refine ⟨h1, ?_⟩
+    rw [den_idEntry, mprod_cons, mprod_singleton]; cases revOf s <;> simp
+  · rename_i hn1 hn2
+    have hI1 : Inv v1 = true := by cases v1 <;> simp_all [EInv]
+    have hI2 : Inv v2 = true := by cases v2 <;> simp_all [EInv]
+    split
+    · rename_i hid
+      refine ⟨h2, ?_⟩
+      rw [isIdentity_den isReal re blocks leaf v1 hid, mprod_cons, mprod_singleton]; cases revOf s <;> simp
+    · split
+      · rename_i hid
+        refine ⟨h1, ?_⟩
+        rw [isIdentity_den isReal re blocks leaf v2 hid, mprod_cons, mprod_singleton]; cases revOf s <;> simp
+      · have hall : ∀ x ∈ [v1, v2], Inv x = true := by
+          intro x hx; simp only [List.mem_cons, List.not_mem_nil, or_false] at hx
+          rcases hx with rfl | rfl
+          · exact hI1
+          · exact hI2
+        obtain ⟨hne, hok⟩ := opnd_list [v1, v2] (fun x hx => Inv_opnd x (hall x hx))
+        refine ⟨Inv_EInv _ (mkChainU_Inv isReal re blocks leaf hre f [v1, v2] (by simp) hall), ?_⟩
+        rw [mkChainU_sound isReal re blocks leaf hre f [v1, v2] s hs (by simp) hne hok]
+        rfl
+
+/-- **`BlockDiagonalOperator._combine_chain` (repaired)**: the combined operator is the product of the two block operators in
+    every mode (in reversed order for the two adjoint-like modes), and it is again a well-formed block operand -/
+theorem combineChain_sound (hB : BlockHom blocks) (hre : ∀ c, isReal c = true → re c = c) (f dm : Nat)
+    (e1 e2 : List (Op K (X → K))) (hlen : e1.length = e2.length)
+    (h1 : ∀ v ∈ e1, EInv v = true) (h2 : ∀ v ∈ e2, EInv v = true) :
+    BlkOK dm e1.length (combineChain S (mkChainU S (f + 1)) dm e1 e2) ∧
+    ∀ s, s < 4 → den S (combineChain S (mkChainU S (f + 1)) dm e1 e2) (1 <<< s) =
+      mprod (revOf s) [den S (Op.blockdiag dm e1) (1 <<< s), den S (Op.blockdiag dm e2) (1 <<< s)] := by
+  constructor
+  · intro dm' e' h'
+    rw [combineChain] at h'
+    injection h' with hdm h'
+    subst h'
+    refine ⟨hdm.symm, by simp [hlen], fun v hv => ?_⟩
+    simp only [List.mem_map] at hv
+    obtain ⟨p, hp, rfl⟩ := hv
+    exact (combineChainEntry_sound isReal re blocks leaf hre f p.1 p.2 (h1 _ (List.of_mem_zip hp).1) (h2 _ (List.of_mem_zip hp).2)
+      0 (by decide)).1
+  · intro s hs
+    have hent : (List.map (fun x => den S x (1 <<< s)) ((e1.zip e2).map fun p => combineChainEntry S (mkChainU S (f + 1)) p.1 p.2)) =
+        List.zipWith (fun x y => mprod (revOf s) [x, y]) (e1.map (den S · (1 <<< s))) (e2.map (den S · (1 <<< s))) := by
+      rw [List.map_map, List.zipWith_map, ← List.map_uncurry_zip_eq_zipWith]
+      apply List.map_congr_left
+      intro p hp
+      simp only [Function.comp, Function.uncurry]
+      exact (combineChainEntry_sound isReal re blocks leaf hre f p.1 p.2 (h1 _ (List.of_mem_zip hp).1) (h2 _ (List.of_mem_zip hp).2)
+        s hs).2
+    rw [combineChain, den_blockdiag, den_blockdiag, den_blockdiag, hent, mprod_cons, mprod_singleton]
+    have hfalse : (fun x y : Matrix X X K => mprod false [x, y]) = fun x y => x * y := by
+      funext x y; simp [mprod_cons, mprod_nil]
+    have htrue : (fun x y : Matrix X X K => mprod true [x, y]) = fun x y => y * x := by
+      funext x y; simp [mprod_cons, mprod_nil]
+    cases revOf s
+    · simp only [Bool.false_eq_true, if_false]
+      rw [hfalse]
+      exact hB.mul dm _ _ (by simpa using hlen)
+    · simp only [if_true]
+      rw [htrue, List.zipWith_comm]
+      exact hB.mul dm _ _ (by simpa using hlen.symm)
+
+/-- **the block-merging pass of `ChainOperator.simplify`**: adjacent block-diagonal operands over the same keys are combined entry
+    by entry; the ordered product is unchanged in all four modes -/
+theorem chainMergeBlock_sound (hB : BlockHom blocks) (hre : ∀ c, isReal c = true → re c = c) (f dm0 L : Nat)
+    (l : List (Op K (X → K))) (hl : ∀ o ∈ l, BlkOK dm0 L o) (s : Nat) (hs : s < 4) :
+    mprod (revOf s) ((chainMergeBlock S (mkChainU S (f + 1)) l).map (den S · (1 <<< s))) =
+      mprod (revOf s) (l.map (den S · (1 <<< s))) := by
+  have aux : ∀ (l acc : List (Op K (X → K))), (∀ o ∈ acc, BlkOK dm0 L o) → (∀ o ∈ l, BlkOK dm0 L o) →
+      mprod (revOf s) (((l.foldl (chainMergeBlockStep S (mkChainU S (f + 1))) acc).reverse).map (den S · (1 <<< s))) =
+        mprod (revOf s) ((acc.reverse ++ l).map (den S · (1 <<< s))) := by
+    intro l
+    induction l with
+    | nil => intro acc _ _; simp
+    | cons op tl ih =>
+      intro acc hacc hl
+      rw [List.foldl_cons]
+      have hstep : (∀ o ∈ chainMergeBlockStep S (mkChainU S (f + 1)) acc op, BlkOK dm0 L o) ∧
+          mprod (revOf s) (((chainMergeBlockStep S (mkChainU S (f + 1)) acc op).reverse ++ tl).map (den S · (1 <<< s))) =
+            mprod (revOf s) ((acc.reverse ++ op :: tl).map (den S · (1 <<< s))) := by
+        unfold chainMergeBlockStep
+        split
+        · rename_i dm e1 accs dm2 e2
+          obtain ⟨hd1, hL1, hE1⟩ := hacc (Op.blockdiag dm e1) (by simp) dm e1 rfl
+          obtain ⟨hd2, hL2, hE2⟩ := hl (Op.blockdiag dm2 e2) (by simp) dm2 e2 rfl
+          obtain ⟨hb, hden⟩ := combineChain_sound isReal re blocks leaf hB hre f dm e1 e2 (hL1.trans hL2.symm) hE1 hE2
+          constructor
+          · intro o ho
+            simp only [List.mem_cons] at ho
+            rcases ho with rfl | ho
+            · rw [hL1] at hb; rw [← hd1]; exact hb
+            · exact hacc o (by simp [ho])
+          · simp only [List.reverse_cons, List.append_assoc, List.map_append, List.map_cons, List.map_nil,
+              List.singleton_append, List.cons_append, List.nil_append]
+            rw [hden s hs, hd1, hd2]
+            simp only [mprod_append, mprod_cons, mprod_nil]
+            cases revOf s <;> simp [mul_assoc]
+        · constructor
+          · intro o ho
+            simp only [List.mem_cons] at ho
+            rcases ho with rfl | ho
+            · exact hl o (by simp)
+            · exact hacc o ho
+          · simp
+      rw [ih _ hstep.1 (fun o ho => hl o (by simp [ho])), hstep.2]
+  unfold chainMergeBlock
+  simpa using aux l [] (by simp) hl
+
+/-- non-vacuity: two block operands over two keys in which the SAME key is missing on both sides are well-formed, and the verified
+    `_combine_sum` turns that key into `1 + 1` -/
+example : BlkOK (X := Fin 2) (K := ℚ) 5 2 (Op.blockdiag 5 [Op.idEntry 0, Op.leaf 3 15 1 1]) ∧
+    sg false (1 : Matrix (Fin 2) (Fin 2) ℚ) + sg false 1 = 2 := by
+  constructor
+  · intro dm' e' h
+    injection h with h1 h2
+    subst h2
+    exact ⟨h1.symm, rfl, by simp [EInv, Inv]⟩
+  · simp [sg]; norm_num
 
 end matrix
 
